@@ -1,6 +1,9 @@
 (* Misc/Lock_proofs.v — proofs of the statements of LockSpec.v (and refutations with concrete
    witnesses) for the variants of Misc/Lock.v.  Invariants by induction over arbitrary operation
-   sequences. *)
+   sequences.  The invariant (and every theorem that needs it) is for the variants whose restore leaves the
+   name LOCK alone (restore_keeps_lock_name v = true): then the kernel's per-inode lock table holds at most one
+   lock, on the inode called LOCK (st_flock s = tbl (st_fs s) (lock_owner s)).  For the other variants mutual
+   exclusion is refuted by a closed witness at the end of the file. *)
 From Coq Require Import List Bool Arith Lia.
 From SKV Require Import Misc.Lock Misc.LockSpec.
 Import ListNotations.
@@ -22,46 +25,86 @@ Proof. reflexivity. Qed.
 
 Lemma holds_true : forall h o, holds h o = true <-> h = Some o.
 Proof.
-  intros [x|] o; simpl; split; intro H; try discriminate.
+  intros [x|] o; cbn [holds]; split; intro H; try discriminate.
   - apply Nat.eqb_eq in H. now subst.
   - inversion H. apply Nat.eqb_refl.
 Qed.
-Lemma unlock_self : forall o, unlock (Some o) o = None.
-Proof. intros. simpl. now rewrite Nat.eqb_refl. Qed.
-Lemma unlock_other : forall h o x, h = Some x -> x <> o -> unlock h o = h.
-Proof. intros. subst. simpl. destruct (Nat.eqb_spec x o); [contradiction | reflexivity]. Qed.
+
+(* the lock table with at most one lock, on the inode called LOCK *)
+Definition tbl (f : fs) (h : option oid) : ltable :=
+  match h with Some o => [(f_lock_ino f, o)] | None => [] end.
+Lemma unlock_tbl_self : forall f o, unlock (tbl f (Some o)) o = [].
+Proof. intros. cbn [tbl unlock filter snd]. now rewrite Nat.eqb_refl. Qed.
+Lemma lock_owner_mk : forall m f l h, (forall y, h = Some y -> f_lock f <> LAbsent) ->
+  lock_owner (mk m (tbl f h) f l) = h.
+Proof.
+  intros m f l h Hn. unfold lock_owner. cbn [mk st_fs st_flock].
+  destruct h as [y|]; cbn [tbl lk_find].
+  - specialize (Hn y eq_refl). rewrite Nat.eqb_refl. destruct (f_lock f); [contradiction | reflexivity | reflexivity].
+  - now destruct (f_lock f).
+Qed.
+Lemma lock_owner_named : forall s h, lock_owner s = Some h -> f_lock (st_fs s) <> LAbsent.
+Proof. intros s h H E. unfold lock_owner in H. rewrite E in H. discriminate. Qed.
+Lemma lock_owner_find : forall s, f_lock (st_fs s) <> LAbsent -> lock_owner s = lk_find (st_flock s) (f_lock_ino (st_fs s)).
+Proof. intros s H. unfold lock_owner. destruct (f_lock (st_fs s)); [contradiction | reflexivity | reflexivity]. Qed.
 
 Lemma set_lock_same : forall f, set_lock f (f_lock f) = f.
 Proof. now destruct f. Qed.
 Lemma mk_base_same : forall f, f_base f = true -> mk_base f = f.
-Proof. destruct f; simpl; intros; now subst. Qed.
+Proof. destruct f; cbn; intros; now subst. Qed.
 Lemma mk_sub_same : forall f o, f_std f = true -> (op_vlog o = true -> f_vlog f = true) -> (op_ver o = true -> f_ver f = true) ->
   mk_sub f o = f.
 Proof.
-  destruct f as [b sd vl vr lk d]; simpl; intros o H1 H2 H3; subst. unfold mk_sub; simpl. f_equal.
+  destruct f as [b sd vl vr lk li nx d]; cbn; intros o H1 H2 H3; subst. unfold mk_sub; cbn. f_equal.
   - destruct (op_vlog o); [rewrite H2 by reflexivity|]; now rewrite ?orb_true_r, ?orb_false_r.
   - destruct (op_ver o); [rewrite H3 by reflexivity|]; now rewrite ?orb_true_r, ?orb_false_r.
 Qed.
 Lemma dirs_eqb_refl : forall f, dirs_eqb f f = true.
 Proof. intros. unfold dirs_eqb. now rewrite !eqb_reflx. Qed.
 Lemma lcontent_eqb_refl : forall c, lcontent_eqb c c = true.
-Proof. destruct c; simpl; auto. apply Nat.eqb_refl. Qed.
+Proof. destruct c; cbn; auto. apply Nat.eqb_refl. Qed.
+
+(* LOCK as seen through the name, after the file operations of the model *)
+Lemma open_lock_named : forall v f, f_lock f <> LAbsent -> open_lock v f = set_lock f (lock_after_open v (f_lock f)).
+Proof. intros v f H. unfold open_lock. destruct (f_lock f); [contradiction | reflexivity | reflexivity]. Qed.
+Lemma f_lock_open_lock : forall v f, f_lock (open_lock v f) = lock_after_open v (f_lock f).
+Proof. intros v f. unfold open_lock. destruct (f_lock f); reflexivity. Qed.
+Lemma open_lock_present : forall v f, f_lock (open_lock v f) <> LAbsent.
+Proof.
+  intros v f. rewrite f_lock_open_lock. unfold lock_after_open.
+  destruct (f_lock f); try discriminate; destruct (trunc_on_open v); discriminate.
+Qed.
+Lemma open_lock_dirs : forall v f,
+  f_base (open_lock v f) = f_base f /\ f_std (open_lock v f) = f_std f /\ f_vlog (open_lock v f) = f_vlog f /\
+  f_ver (open_lock v f) = f_ver f /\ f_data (open_lock v f) = f_data f.
+Proof. intros v f. unfold open_lock. destruct (f_lock f); cbn; auto. Qed.
+Lemma open_lock_ino : forall v f, f_lock f <> LAbsent -> f_lock_ino (open_lock v f) = f_lock_ino f.
+Proof. intros v f H. now rewrite open_lock_named. Qed.
+Lemma wr_lock_named : forall f c, f_lock f <> LAbsent -> wr_lock f (f_lock_ino f) c = set_lock f c.
+Proof. intros f c H. unfold wr_lock. rewrite Nat.eqb_refl. destruct (f_lock f); [contradiction | reflexivity | reflexivity]. Qed.
+
+Lemma wr_lock_set : forall f c1 c2, c1 <> LAbsent -> wr_lock (set_lock f c1) (f_lock_ino f) c2 = set_lock (set_lock f c1) c2.
+Proof. intros f c1 c2 H. unfold wr_lock. cbn [set_lock f_lock f_lock_ino]. rewrite Nat.eqb_refl. destruct c1; [contradiction | reflexivity | reflexivity]. Qed.
 
 (* ------------------------------------------------------------------ invariants *)
 Definition past_validated (p : pc) : bool := match p with PStart | PValidated => false | _ => true end.
 Definition past_dirs (p : pc) : bool := match p with PStart | PValidated | PDirs => false | _ => true end.
 
 Record Inv (v : variant) (s : state) : Prop := {
-  (* an opener between lock and release is the kernel's lock owner *)
-  inv_crit : forall o r, st_op s o = Some r -> critical (o_pc r) = true -> st_flock s = Some o;
-  (* the kernel's lock owner is an existing opener between lock and release *)
-  inv_owner : forall h, st_flock s = Some h -> exists r, st_op s h = Some r /\ critical (o_pc r) = true;
+  (* the kernel holds at most one lock, on the inode called LOCK *)
+  inv_tbl : st_flock s = tbl (st_fs s) (lock_owner s);
+  (* an opener between lock and release is the owner of that lock *)
+  inv_crit : forall o r, st_op s o = Some r -> critical (o_pc r) = true -> lock_owner s = Some o;
+  (* the owner is an existing opener between lock and release *)
+  inv_owner : forall h, lock_owner s = Some h -> exists r, st_op s h = Some r /\ critical (o_pc r) = true;
   (* the ghost log brackets agree with the lock table *)
-  inv_scan : scan (st_log s) = Some (st_flock s);
-  inv_quiet_track : forall a, fold_left quiet_ev (st_log s) (Some None) = Some a -> a = st_flock s;
+  inv_scan : scan (st_log s) = Some (lock_owner s);
+  inv_quiet_track : forall a, fold_left quiet_ev (st_log s) (Some None) = Some a -> a = lock_owner s;
   (* what an opener has created stays *)
   inv_base : forall o r, st_op s o = Some r -> past_validated (o_pc r) = true -> f_base (st_fs s) = true;
   inv_lockfile : forall o r, st_op s o = Some r -> past_dirs (o_pc r) = true -> f_lock (st_fs s) <> LAbsent;
+  (* ... and the inode an opener opened is the one the name LOCK denotes *)
+  inv_ino : forall o r, st_op s o = Some r -> past_dirs (o_pc r) = true -> o_ino r = f_lock_ino (st_fs s);
   inv_sub : forall o r, st_op s o = Some r -> past_validated (o_pc r) = true -> subdirs_before_lock v = true ->
             f_std (st_fs s) = true /\ (op_vlog (o_opts r) = true -> f_vlog (st_fs s) = true)
             /\ (op_ver (o_opts r) = true -> f_ver (st_fs s) = true)
@@ -69,14 +112,14 @@ Record Inv (v : variant) (s : state) : Prop := {
 
 Lemma inv_s0 : forall v, Inv v s0.
 Proof.
-  intro v. constructor; simpl; intros; try discriminate; auto.
-  now inversion H.
+  intro v. constructor; cbn; try (intros; discriminate); auto.
+  intros a Q. now inversion Q.
 Qed.
 
 Lemma critical_past_dirs : forall p, critical p = true -> past_dirs p = true.
-Proof. destruct p; simpl; auto. Qed.
+Proof. destruct p; cbn; auto. Qed.
 Lemma past_dirs_validated : forall p, past_dirs p = true -> past_validated p = true.
-Proof. destruct p; simpl; auto. Qed.
+Proof. destruct p; cbn; auto. Qed.
 
 Lemma scan_snoc : forall l e, scan (l ++ [e]) = scan_ev (scan l) e.
 Proof. intros. unfold scan. now rewrite fold_left_app. Qed.
@@ -86,11 +129,6 @@ Lemma quiet_snoc : forall l e a, fold_left quiet_ev (l ++ [e]) a = quiet_ev (fol
 Proof. intros. now rewrite fold_left_app. Qed.
 Lemma quiet_app2 : forall l e1 e2 a, fold_left quiet_ev (l ++ [e1; e2]) a = quiet_ev (quiet_ev (fold_left quiet_ev l a) e1) e2.
 Proof. intros. now rewrite fold_left_app. Qed.
-
-(* fs facts preserved by every fs transformer of the model *)
-Lemma fs_mono_base : forall f c o, f_base f = true ->
-  f_base (set_lock f c) = true /\ f_base (bump f) = true /\ f_base (mk_base f) = true /\ f_base (mk_sub f o) = true.
-Proof. intros; simpl; auto. Qed.
 
 Ltac inv_eq :=
   repeat match goal with
@@ -104,36 +142,65 @@ Ltac look o1 o :=
   destruct (Nat.eq_dec o1 o) as [?E|?E];
   [subst o1; rewrite ?upd_eq in * | rewrite ?(upd_neq _ _ _ _ E) in * by assumption].
 
+(* consequences of the invariant on the concrete lock table *)
+Lemma inv_free : forall v s, Inv v s -> lock_owner s = None -> st_flock s = [].
+Proof. intros v s I F. rewrite (inv_tbl v s I), F. reflexivity. Qed.
+Lemma inv_held : forall v s o, Inv v s -> lock_owner s = Some o ->
+  st_flock s = [(f_lock_ino (st_fs s), o)] /\ f_lock (st_fs s) <> LAbsent.
+Proof. intros v s o I F. split; [rewrite (inv_tbl v s I), F; reflexivity | eapply lock_owner_named; eauto]. Qed.
+(* an opener that has opened LOCK looks its own inode up: it finds the owner *)
+Lemma inv_find : forall v s o r, Inv v s -> st_op s o = Some r -> past_dirs (o_pc r) = true ->
+  lk_find (st_flock s) (o_ino r) = lock_owner s.
+Proof.
+  intros v s o r I H P. rewrite (inv_ino v s I o r H P). symmetry. apply lock_owner_find.
+  eapply (inv_lockfile v s I); eauto.
+Qed.
+(* the table stays of the one-lock form when the named inode stays *)
+Lemma tbl_keep : forall v s f', Inv v s ->
+  (f_lock (st_fs s) <> LAbsent -> f_lock_ino f' = f_lock_ino (st_fs s)) ->
+  st_flock s = tbl f' (lock_owner s).
+Proof.
+  intros v s f' I Mi. rewrite (inv_tbl v s I) at 1. destruct (lock_owner s) as [h|] eqn:F; [|reflexivity].
+  cbn [tbl]. rewrite Mi; [reflexivity | eapply lock_owner_named; eauto].
+Qed.
+
 Section Step.
 Variable v : variant.
+(* the restore of this variant leaves the name LOCK alone *)
+Hypothesis KEEP : restore_keeps_lock_name v = true.
 
 (* the generic shape of a transition: opener o gets record x (or disappears), the lock table
-   becomes h', the fs f', the log grows by evs *)
-Lemma inv_upd : forall s o (x : option opener) h' f' evs,
+   becomes T — again of the one-lock form, with owner h' —, the fs f', the log grows by evs *)
+Lemma inv_upd : forall s o (x : option opener) T h' f' evs,
   Inv v s ->
+  T = tbl f' h' ->
+  (forall y, h' = Some y -> f_lock f' <> LAbsent) ->
   (* lock table vs the changed opener *)
   (match x with Some r' => critical (o_pc r') = true -> h' = Some o | None => True end) ->
-  (forall o1, o1 <> o -> st_flock s = Some o1 -> h' = Some o1) ->
-  (forall hh, h' = Some hh -> (hh = o /\ exists r', x = Some r' /\ critical (o_pc r') = true) \/ (hh <> o /\ st_flock s = Some hh)) ->
+  (forall o1, o1 <> o -> lock_owner s = Some o1 -> h' = Some o1) ->
+  (forall hh, h' = Some hh -> (hh = o /\ exists r', x = Some r' /\ critical (o_pc r') = true) \/ (hh <> o /\ lock_owner s = Some hh)) ->
   scan (st_log s ++ evs) = Some h' ->
   (forall a, fold_left quiet_ev (st_log s ++ evs) (Some None) = Some a -> a = h') ->
-  (* fs monotone *)
+  (* fs monotone; the named inode stays *)
   (f_base (st_fs s) = true -> f_base f' = true) ->
-  (f_lock (st_fs s) <> LAbsent -> f_lock f' <> LAbsent) ->
+  (f_lock (st_fs s) <> LAbsent -> f_lock f' <> LAbsent /\ f_lock_ino f' = f_lock_ino (st_fs s)) ->
   (f_std (st_fs s) = true -> f_std f' = true) ->
   (f_vlog (st_fs s) = true -> f_vlog f' = true) ->
   (f_ver (st_fs s) = true -> f_ver f' = true) ->
   (match x with
    | Some r' => (past_validated (o_pc r') = true -> f_base f' = true) /\
-                (past_dirs (o_pc r') = true -> f_lock f' <> LAbsent) /\
+                (past_dirs (o_pc r') = true -> f_lock f' <> LAbsent /\ o_ino r' = f_lock_ino f') /\
                 (past_validated (o_pc r') = true -> subdirs_before_lock v = true ->
                    f_std f' = true /\ (op_vlog (o_opts r') = true -> f_vlog f' = true) /\ (op_ver (o_opts r') = true -> f_ver f' = true))
    | None => True end) ->
-  Inv v (mk (upd (st_op s) o x) h' f' (st_log s ++ evs)).
+  Inv v (mk (upd (st_op s) o x) T f' (st_log s ++ evs)).
 Proof.
-  intros s o x h' f' evs I Hx Hoth Hown Hscan Hq Mb Ml Ms Mv Mr Hnew.
-  destruct I as [Ic Io Is Iq Ib Il Isub].
-  constructor; simpl.
+  intros s o x T h' f' evs I HT Hn Hx Hoth Hown Hscan Hq Mb Ml Ms Mv Mr Hnew.
+  subst T.
+  assert (LO : lock_owner (mk (upd (st_op s) o x) (tbl f' h') f' (st_log s ++ evs)) = h') by (now apply lock_owner_mk).
+  destruct I as [It Ic Io Is Iq Ib Il Ii Isub].
+  constructor; rewrite ?LO; cbn [mk st_op st_flock st_fs st_log].
+  - reflexivity.
   - intros o1 r1 H1 C1. look o1 o.
     + subst x. now apply Hx.
     + apply Hoth; auto. eapply Ic; eauto.
@@ -148,24 +215,54 @@ Proof.
   - intros o1 r1 H1 P1. look o1 o.
     + subst x. now apply Hnew.
     + apply Ml. eapply Il; eauto.
+  - intros o1 r1 H1 P1. look o1 o.
+    + subst x. now apply Hnew.
+    + rewrite (Ii o1 r1 H1 P1). symmetry. apply Ml. eapply Il; eauto.
   - intros o1 r1 H1 P1 SB. look o1 o.
     + subst x. now apply Hnew.
     + destruct (Isub o1 r1 H1 P1 SB) as [A [B C]]. repeat split; auto.
 Qed.
 
-(* the same when nothing is logged *)
-Lemma inv_upd0 : forall s o (x : option opener) f',
+(* the lock table and its owner do not change *)
+Lemma inv_upd_same : forall s o (x : option opener) f' evs,
   Inv v s ->
-  (match x with Some r' => critical (o_pc r') = true -> st_flock s = Some o | None => True end) ->
-  (forall hh, st_flock s = Some hh -> (hh = o /\ exists r', x = Some r' /\ critical (o_pc r') = true) \/ hh <> o) ->
+  (match x with Some r' => critical (o_pc r') = true -> lock_owner s = Some o | None => True end) ->
+  (forall hh, lock_owner s = Some hh -> (hh = o /\ exists r', x = Some r' /\ critical (o_pc r') = true) \/ hh <> o) ->
+  scan (st_log s ++ evs) = Some (lock_owner s) ->
+  (forall a, fold_left quiet_ev (st_log s ++ evs) (Some None) = Some a -> a = lock_owner s) ->
   (f_base (st_fs s) = true -> f_base f' = true) ->
-  (f_lock (st_fs s) <> LAbsent -> f_lock f' <> LAbsent) ->
+  (f_lock (st_fs s) <> LAbsent -> f_lock f' <> LAbsent /\ f_lock_ino f' = f_lock_ino (st_fs s)) ->
   (f_std (st_fs s) = true -> f_std f' = true) ->
   (f_vlog (st_fs s) = true -> f_vlog f' = true) ->
   (f_ver (st_fs s) = true -> f_ver f' = true) ->
   (match x with
    | Some r' => (past_validated (o_pc r') = true -> f_base f' = true) /\
-                (past_dirs (o_pc r') = true -> f_lock f' <> LAbsent) /\
+                (past_dirs (o_pc r') = true -> f_lock f' <> LAbsent /\ o_ino r' = f_lock_ino f') /\
+                (past_validated (o_pc r') = true -> subdirs_before_lock v = true ->
+                   f_std f' = true /\ (op_vlog (o_opts r') = true -> f_vlog f' = true) /\ (op_ver (o_opts r') = true -> f_ver f' = true))
+   | None => True end) ->
+  Inv v (mk (upd (st_op s) o x) (st_flock s) f' (st_log s ++ evs)).
+Proof.
+  intros s o x f' evs I Hx Hown Hscan Hq Mb Ml Ms Mv Mr Hnew.
+  apply inv_upd with (h' := lock_owner s); auto.
+  - eapply tbl_keep; eauto. intro N. now apply Ml.
+  - intros y Hy. apply Ml. eapply lock_owner_named; eauto.
+  - intros hh Hh. destruct (Hown hh Hh) as [A|A]; auto.
+Qed.
+
+(* the same when nothing is logged *)
+Lemma inv_upd0 : forall s o (x : option opener) f',
+  Inv v s ->
+  (match x with Some r' => critical (o_pc r') = true -> lock_owner s = Some o | None => True end) ->
+  (forall hh, lock_owner s = Some hh -> (hh = o /\ exists r', x = Some r' /\ critical (o_pc r') = true) \/ hh <> o) ->
+  (f_base (st_fs s) = true -> f_base f' = true) ->
+  (f_lock (st_fs s) <> LAbsent -> f_lock f' <> LAbsent /\ f_lock_ino f' = f_lock_ino (st_fs s)) ->
+  (f_std (st_fs s) = true -> f_std f' = true) ->
+  (f_vlog (st_fs s) = true -> f_vlog f' = true) ->
+  (f_ver (st_fs s) = true -> f_ver f' = true) ->
+  (match x with
+   | Some r' => (past_validated (o_pc r') = true -> f_base f' = true) /\
+                (past_dirs (o_pc r') = true -> f_lock f' <> LAbsent /\ o_ino r' = f_lock_ino f') /\
                 (past_validated (o_pc r') = true -> subdirs_before_lock v = true ->
                    f_std f' = true /\ (op_vlog (o_opts r') = true -> f_vlog f' = true) /\ (op_ver (o_opts r') = true -> f_ver f' = true))
    | None => True end) ->
@@ -173,57 +270,64 @@ Lemma inv_upd0 : forall s o (x : option opener) f',
 Proof.
   intros s o x f' I Hx Hown Mb Ml Ms Mv Mr Hnew.
   rewrite <- (app_nil_r (st_log s)).
-  apply inv_upd; auto; rewrite ?app_nil_r.
-  - intros hh Hh. destruct (Hown hh Hh) as [A|A]; auto.
+  apply inv_upd_same; auto; rewrite ?app_nil_r.
   - apply (inv_scan v s I).
   - apply (inv_quiet_track v s I).
 Qed.
 
 Lemma flock_not_o : forall s o r, Inv v s -> st_op s o = Some r -> critical (o_pc r) = false ->
-  forall hh, st_flock s = Some hh -> hh <> o.
+  forall hh, lock_owner s = Some hh -> hh <> o.
 Proof.
   intros s o r I H C hh Hh ->. destruct (inv_owner v s I o Hh) as [r' [A B]].
   rewrite H in A. inv_eq. congruence.
 Qed.
-Lemma flock_absent_not_o : forall s o, Inv v s -> st_op s o = None -> forall hh, st_flock s = Some hh -> hh <> o.
+Lemma flock_absent_not_o : forall s o, Inv v s -> st_op s o = None -> forall hh, lock_owner s = Some hh -> hh <> o.
 Proof.
   intros s o I H hh Hh ->. destruct (inv_owner v s I o Hh) as [r' [A B]]. congruence.
 Qed.
 
 Lemma quiet_track_some : forall s, Inv v s ->
   forall e a, quiet_ev (fold_left quiet_ev (st_log s) (Some None)) e = Some a ->
-  fold_left quiet_ev (st_log s) (Some None) = Some (st_flock s).
+  fold_left quiet_ev (st_log s) (Some None) = Some (lock_owner s).
 Proof.
   intros s I e a H. destruct (fold_left quiet_ev (st_log s) (Some None)) as [b|] eqn:E; [|discriminate].
   f_equal. now apply (inv_quiet_track v s I).
 Qed.
 
-(* side conditions of inv_upd / inv_upd0, solved by shape *)
+(* side conditions of inv_upd / inv_upd_same / inv_upd0, solved by shape *)
 Ltac old_inv I H P :=
   solve [ eapply (inv_base v _ I); eauto; now rewrite P
         | eapply (inv_lockfile v _ I); eauto; now rewrite P
+        | eapply (inv_ino v _ I); eauto; now rewrite P
+        | split; [eapply (inv_lockfile v _ I); eauto; now rewrite P | eapply (inv_ino v _ I); eauto; now rewrite P]
         | eapply (inv_sub v _ I); eauto; now rewrite P ].
 Ltac lock_cases :=
-  solve [ intros; simpl; match goal with |- context [f_lock ?f] => destruct (f_lock f) end;
+  solve [ intros; cbn; match goal with |- context [f_lock ?f] => destruct (f_lock f) end;
           try discriminate; destruct (trunc_on_open v); discriminate ].
 Ltac quiet_goal I F :=
   let a := fresh "a" in let Q := fresh "Q" in let b := fresh "b" in let E := fresh "E" in
   intros a; rewrite ?quiet_snoc, ?quiet_app2; intro Q;
   destruct (fold_left quiet_ev (st_log _) (Some None)) as [b|] eqn:E; [|discriminate Q];
-  pose proof (inv_quiet_track v _ I b E); subst b; rewrite ?F in Q; simpl in Q;
+  pose proof (inv_quiet_track v _ I b E); subst b; rewrite ?F in Q; cbn in Q;
   repeat match type of Q with
-         | context [negb ?x] => destruct (negb x); simpl in Q
-         | context [match st_flock ?s with _ => _ end] => destruct (st_flock s); simpl in Q
-         | context [Nat.eqb ?x ?y] => destruct (Nat.eqb x y); simpl in Q
+         | context [negb ?x] => destruct (negb x); cbn in Q
+         | context [match lock_owner ?s with _ => _ end] => destruct (lock_owner s); cbn in Q
+         | context [Nat.eqb ?x ?y] => destruct (Nat.eqb x y); cbn in Q
          end;
   inv_eq; rewrite ?F; reflexivity.
+(* the fs keeps LOCK: name, inode *)
+Ltac keep_lock :=
+  solve [ intros; cbn; split; [assumption | reflexivity]
+        | intros; cbn; split; [discriminate | reflexivity]
+        | intros; unfold fs_dirs; destruct (subdirs_before_lock v); cbn; split; [assumption | reflexivity] ].
 Ltac side I H P F :=
-  simpl; rewrite ?F, ?unlock_self;
+  cbn; rewrite ?F;
   first
   [ exact I
   | solve [auto]
   | solve [intros; discriminate]
-  | solve [intros; simpl; auto]
+  | solve [intros; cbn; auto]
+  | keep_lock
   | (* owner: o not critical, table unchanged *)
     solve [ let hh := fresh in let Hh := fresh in intros hh Hh; right; first [split; [|exact Hh] |idtac];
             inv_eq; first [ eapply flock_not_o; eauto; now rewrite P | eapply flock_absent_not_o; eauto ] ]
@@ -231,64 +335,109 @@ Ltac side I H P F :=
     solve [ let hh := fresh in let Hh := fresh in intros hh Hh; rewrite ?F in Hh; inv_eq; left; split; auto; eexists; split; eauto ]
   | (* others keep the lock *)
     solve [ let o1 := fresh in let Ne := fresh in let E := fresh in intros o1 Ne E; rewrite ?F in E; inv_eq; congruence ]
-  | solve [ rewrite ?scan_snoc, ?scan_app2, (inv_scan v _ I), ?F; simpl; rewrite ?Nat.eqb_refl; reflexivity ]
+  | solve [ rewrite ?scan_snoc, ?scan_app2, (inv_scan v _ I), ?F; cbn; rewrite ?Nat.eqb_refl; reflexivity ]
   | solve [ quiet_goal I F ]
   | lock_cases
-  | solve [ destruct (subdirs_before_lock v); simpl; auto; intros ->; apply orb_true_l ]
+  | solve [ destruct (subdirs_before_lock v); cbn; auto; intros ->; apply orb_true_l ]
   | solve [ split; [|split]; intros; try discriminate; try old_inv I H P; try lock_cases;
-            try (destruct (subdirs_before_lock v); simpl; old_inv I H P) ]
+            try (split; [ first [discriminate | assumption | lock_cases | old_inv I H P]
+                        | first [assumption | reflexivity | old_inv I H P] ]);
+            try (destruct (subdirs_before_lock v); cbn; old_inv I H P) ]
   | idtac ].
+
+(* an opener between lock and release: the table is [(its inode = the named inode, it)] *)
+Lemma crit_facts : forall s o r, Inv v s -> st_op s o = Some r -> critical (o_pc r) = true ->
+  lock_owner s = Some o /\ st_flock s = [(f_lock_ino (st_fs s), o)] /\ f_lock (st_fs s) <> LAbsent /\
+  o_ino r = f_lock_ino (st_fs s).
+Proof.
+  intros s o r I H C. assert (F : lock_owner s = Some o) by (eapply (inv_crit v s I); eauto).
+  destruct (inv_held v s o I F) as [T N]. repeat split; auto.
+  eapply (inv_ino v s I); eauto. now apply critical_past_dirs.
+Qed.
 
 Lemma inv_step_opener : forall s o r, Inv v s -> st_op s o = Some r -> Inv v (step_opener v s o r).
 Proof.
-  intros s o r I H. unfold step_opener, fs_dirs, lock_after_open.
+  intros s o r I H. unfold step_opener, fs_dirs.
   destruct (o_pc r) eqn:P; try exact I.
   - (* PStart *)
     destruct (op_valid (o_opts r)).
     + apply inv_upd0; side I H P I.
-    + apply inv_upd; side I H P I.
+    + apply inv_upd_same; side I H P I.
   - (* PValidated *)
-    apply inv_upd; side I H P I.
+    apply inv_upd_same; side I H P I.
     split; [|split]; try discriminate.
     + intros _. destruct (subdirs_before_lock v); reflexivity.
-    + intros _ ->. simpl. repeat split; auto; intros ->; apply orb_true_r.
+    + intros _ ->. cbn. repeat split; auto; intros ->; apply orb_true_r.
   - (* PDirs *)
-    apply inv_upd; side I H P I.
+    destruct (open_lock_dirs v (st_fs s)) as (EB & ES & EV & ER & _).
+    apply inv_upd_same; side I H P I; rewrite ?EB, ?ES, ?EV, ?ER; auto.
+    + intro N. split; [apply open_lock_present | now apply open_lock_ino].
+    + split; [|split].
+      * intros _. old_inv I H P.
+      * intros _. split; [apply open_lock_present | reflexivity].
+      * intros _ SB. old_inv I H P.
   - (* POpened *)
-    destruct (st_flock s) as [hh|] eqn:F.
-    + apply inv_upd; side I H P F.
-    + apply inv_upd; side I H P F.
+    rewrite (inv_find v s o r I H) by (now rewrite P).
+    assert (N : f_lock (st_fs s) <> LAbsent) by old_inv I H P.
+    assert (E : o_ino r = f_lock_ino (st_fs s)) by old_inv I H P.
+    destruct (lock_owner s) as [hh|] eqn:F.
+    + apply inv_upd_same; side I H P F.
+    + apply inv_upd with (h' := Some o); side I H P F.
+      * now rewrite (inv_free v s I F), E.
   - (* PLocked *)
-    assert (F : st_flock s = Some o) by (eapply (inv_crit v s I); eauto; now rewrite P).
-    apply inv_upd; side I H P F.
+    destruct (crit_facts s o r I H) as (F & T & N & E); [now rewrite P|].
+    rewrite E, (wr_lock_named _ _ N).
+    apply inv_upd_same; side I H P F.
   - (* PCleared *)
-    assert (F : st_flock s = Some o) by (eapply (inv_crit v s I); eauto; now rewrite P).
+    destruct (crit_facts s o r I H) as (F & T & N & E); [now rewrite P|].
     apply inv_upd0; side I H P F.
   - (* PCloned *)
-    assert (F : st_flock s = Some o) by (eapply (inv_crit v s I); eauto; now rewrite P).
-    apply inv_upd; side I H P F.
+    destruct (crit_facts s o r I H) as (F & T & N & E); [now rewrite P|].
+    rewrite E, (wr_lock_named _ _ N).
+    apply inv_upd_same; side I H P F.
   - (* PWritten *)
-    assert (F : st_flock s = Some o) by (eapply (inv_crit v s I); eauto; now rewrite P).
-    apply inv_upd; side I H P F.
-    split; [|split]; intros.
-    + destruct (subdirs_before_lock v); simpl; old_inv I H P.
-    + destruct (subdirs_before_lock v); simpl; old_inv I H P.
-    + rewrite H1. simpl. old_inv I H P.
+    destruct (crit_facts s o r I H) as (F & T & N & E); [now rewrite P|].
+    apply inv_upd_same; side I H P F.
+    split; [|split].
+    + intros _. destruct (subdirs_before_lock v); cbn; old_inv I H P.
+    + intros _. destruct (subdirs_before_lock v); cbn; auto.
+    + intros _ SB. rewrite SB. cbn. old_inv I H P.
+  - (* PRestoring *)
+    destruct (crit_facts s o r I H) as (F & T & N & E); [now rewrite P|].
+    apply inv_upd_same; side I H P F.
   - (* PClosing *)
-    assert (F : st_flock s = Some o) by (eapply (inv_crit v s I); eauto; now rewrite P).
-    apply inv_upd; side I H P F.
+    destruct (crit_facts s o r I H) as (F & T & N & E); [now rewrite P|].
+    apply inv_upd with (h' := None); side I H P F.
+    + rewrite T. cbn. now rewrite Nat.eqb_refl.
   - (* PDropping *)
-    assert (F : st_flock s = Some o) by (eapply (inv_crit v s I); eauto; now rewrite P).
-    apply inv_upd; side I H P F.
+    destruct (crit_facts s o r I H) as (F & T & N & E); [now rewrite P|].
+    apply inv_upd_same; side I H P F.
   - (* PDropClosing *)
-    assert (F : st_flock s = Some o) by (eapply (inv_crit v s I); eauto; now rewrite P).
-    apply inv_upd; side I H P F.
+    destruct (crit_facts s o r I H) as (F & T & N & E); [now rewrite P|].
+    apply inv_upd with (h' := None); side I H P F.
+    + rewrite T. cbn. now rewrite Nat.eqb_refl.
+Qed.
+
+(* a data event of the owner: only the version counter moves *)
+Lemma inv_data : forall s o r k, Inv v s -> st_op s o = Some r -> critical (o_pc r) = true ->
+  Inv v (mk (st_op s) (st_flock s) (bump (st_fs s)) (st_log s ++ [EvData o k])).
+Proof.
+  intros s o r k I H C.
+  assert (F : lock_owner s = Some o) by (eapply (inv_crit v s I); eauto).
+  pose proof (inv_scan v s I) as Hs.
+  assert (LO : lock_owner (mk (st_op s) (st_flock s) (bump (st_fs s)) (st_log s ++ [EvData o k])) = lock_owner s) by reflexivity.
+  destruct I as [It Ic Io Is Iq Ib Il Ii Isub].
+  constructor; rewrite ?LO; cbn [mk st_op st_flock st_fs st_log]; auto.
+  - rewrite scan_snoc, Hs, F. cbn. now rewrite Nat.eqb_refl.
+  - intros a. rewrite quiet_snoc. intro Q.
+    destruct (fold_left quiet_ev (st_log s) (Some None)) as [b|] eqn:E; [|discriminate].
+    cbn in Q. inv_eq. now apply Iq.
 Qed.
 
 Lemma inv_apply : forall s a, Inv v s -> Inv v (apply_op v s a).
 Proof.
   intros s a I.
-  destruct a as [o p opts | o | o | o | o | o | o | p]; unfold apply_op.
+  destruct a as [o p opts | o | o | o | o | o | o | p | o | o]; unfold apply_op.
   - (* OBegin *)
     destruct (st_op s o) eqn:H; [exact I|].
     apply inv_upd0; side I H H I.
@@ -296,59 +445,73 @@ Proof.
     destruct (st_op s o) eqn:H; [|exact I]. now apply inv_step_opener.
   - (* OClose *)
     destruct (st_op s o) as [r|] eqn:H; [|exact I]. destruct (o_pc r) eqn:P; try exact I.
-    assert (F : st_flock s = Some o) by (eapply (inv_crit v s I); eauto; now rewrite P).
-    apply inv_upd; side I H P F.
+    destruct (crit_facts s o r I H) as (F & T & N & E); [now rewrite P|].
+    apply inv_upd_same; side I H P F.
   - (* ODrop *)
     destruct (st_op s o) as [r|] eqn:H; [|exact I]. destruct (o_pc r) eqn:P; try exact I.
-    + assert (F : st_flock s = Some o) by (eapply (inv_crit v s I); eauto; now rewrite P).
+    + destruct (crit_facts s o r I H) as (F & T & N & E); [now rewrite P|].
       apply inv_upd0; side I H P F.
-    + apply inv_upd; side I H P I.
+    + apply inv_upd_same; side I H P I.
   - (* ODropDetached *)
     destruct (st_op s o) as [r|] eqn:H; [|exact I]. destruct (o_pc r) eqn:P; try exact I.
-    + assert (F : st_flock s = Some o) by (eapply (inv_crit v s I); eauto; now rewrite P).
+    + destruct (crit_facts s o r I H) as (F & T & N & E); [now rewrite P|].
       destruct (detached_drop_closes v); apply inv_upd0; side I H P F.
-    + apply inv_upd; side I H P I.
+    + apply inv_upd_same; side I H P I.
   - (* ORuntimeGone *)
     destruct (st_op s o) as [r|] eqn:H; [|exact I]. destruct (o_pc r) eqn:P; try exact I.
-    assert (F : st_flock s = Some o) by (eapply (inv_crit v s I); eauto; now rewrite P).
-    apply inv_upd; side I H P F.
+    destruct (crit_facts s o r I H) as (F & T & N & E); [now rewrite P|].
+    apply inv_upd with (h' := None); side I H P F.
+    + rewrite T. cbn. now rewrite Nat.eqb_refl.
   - (* OCommit *)
     destruct (st_op s o) as [r|] eqn:H; [|exact I]. destruct (o_pc r) eqn:P; try exact I.
-    assert (F : st_flock s = Some o) by (eapply (inv_crit v s I); eauto; now rewrite P).
-    pose proof (inv_scan v s I) as Hs.
-    destruct I as [Ic Io Is Iq Ib Il Isub].
-    constructor; simpl; auto.
-    + rewrite scan_snoc, Hs, F. simpl. now rewrite Nat.eqb_refl.
-    + intros a. rewrite quiet_snoc. intro Q.
-      destruct (fold_left quiet_ev (st_log s) (Some None)) as [b|] eqn:E; [|discriminate].
-      simpl in Q. inv_eq. now apply Iq.
+    eapply inv_data; eauto. now rewrite P.
   - (* OKill *)
-    destruct I as [Ic Io Is Iq Ib Il Isub].
     assert (KM : forall o r, kill_map (st_op s) p o = Some r -> st_op s o = Some r /\ Nat.eqb (o_proc r) p = false).
     { intros o r. unfold kill_map. destruct (st_op s o) as [r0|]; [|discriminate].
       destruct (Nat.eqb (o_proc r0) p) eqn:E; [discriminate|]. intro. inv_eq. auto. }
-    constructor; simpl.
-    + intros o r H C. destruct (KM o r H) as [A B]. pose proof (Ic o r A C) as F.
-      unfold kill_flock. rewrite F, A, B. reflexivity.
-    + intros hh. unfold kill_flock. destruct (st_flock s) as [x|] eqn:F; [|discriminate].
-      destruct (Io x eq_refl) as [r [A B]]. rewrite A.
-      destruct (Nat.eqb (o_proc r) p) eqn:E; [discriminate|]. intro. inv_eq.
-      exists r. unfold kill_map. rewrite A, E. auto.
-    + unfold kill_log, kill_flock. destruct (st_flock s) as [x|] eqn:F.
-      * destruct (Io x eq_refl) as [r [A B]]. rewrite A. destruct (Nat.eqb (o_proc r) p).
-        -- rewrite scan_app2, Is. simpl. now rewrite Nat.eqb_refl.
-        -- now rewrite app_nil_r.
-      * now rewrite app_nil_r.
-    + unfold kill_log, kill_flock. destruct (st_flock s) as [x|] eqn:F.
-      * destruct (Io x eq_refl) as [r [A B]]. rewrite A. destruct (Nat.eqb (o_proc r) p).
-        -- intros a. rewrite quiet_app2.
-           destruct (fold_left quiet_ev (st_log s) (Some None)) as [b|] eqn:E; [|discriminate].
-           simpl. intro. now inv_eq.
-        -- rewrite app_nil_r. exact Iq.
-      * rewrite app_nil_r. exact Iq.
+    pose proof (inv_scan v s I) as Hs.
+    assert (SHAPE : exists h' evs,
+              kill_flock (st_op s) (st_flock s) p = tbl (st_fs s) h' /\ kill_log (st_op s) (st_flock s) p = evs /\
+              (forall y, h' = Some y -> lock_owner s = Some y /\ exists r, st_op s y = Some r /\ Nat.eqb (o_proc r) p = false) /\
+              (forall y r, lock_owner s = Some y -> st_op s y = Some r -> Nat.eqb (o_proc r) p = false -> h' = Some y) /\
+              scan (st_log s ++ evs) = Some h' /\
+              (forall a, fold_left quiet_ev (st_log s ++ evs) (Some None) = Some a -> a = h')).
+    { destruct (lock_owner s) as [x|] eqn:F.
+      - destruct (inv_held v s x I F) as [T N]. destruct (inv_owner v s I x F) as [r [A C]].
+        rewrite T. unfold kill_flock, kill_log, dies. cbn [filter flat_map snd]. rewrite A.
+        destruct (Nat.eqb (o_proc r) p) eqn:D; cbn [negb app].
+        + exists None. eexists. split; [reflexivity|]. split; [reflexivity|]. split; [intros y Y; discriminate Y|].
+          split; [intros y r0 Y A0 D0; inv_eq; rewrite A in A0; inv_eq; congruence|]. split.
+          * rewrite scan_app2, Hs. cbn. now rewrite Nat.eqb_refl.
+          * intros a. rewrite quiet_app2.
+            destruct (fold_left quiet_ev (st_log s) (Some None)) as [b|] eqn:E; [|discriminate].
+            cbn. intro. now inv_eq.
+        + exists (Some x). eexists. split; [reflexivity|]. split; [reflexivity|]. split; [intros y Y; inv_eq; split; eauto|].
+          split; [intros y r0 Y A0 D0; now inv_eq|]. rewrite app_nil_r. split; [exact Hs|].
+          intros a Q. rewrite (inv_quiet_track v s I a Q). exact F.
+      - rewrite (inv_free v s I F). exists None. eexists. split; [reflexivity|]. split; [reflexivity|].
+        split; [intros y Y; discriminate Y|]. split; [intros y r0 Y; discriminate Y|]. cbn [kill_log flat_map]. rewrite app_nil_r.
+        split; [exact Hs|]. intros a Q. rewrite (inv_quiet_track v s I a Q). exact F. }
+    destruct SHAPE as (h' & evs & ET & EL & Hsome & Hkeep & Hscan & Hq). rewrite ET, EL.
+    assert (LO : lock_owner (mk (kill_map (st_op s) p) (tbl (st_fs s) h') (st_fs s) (st_log s ++ evs)) = h').
+    { apply lock_owner_mk. intros y Y. destruct (Hsome y Y) as [F _]. eapply lock_owner_named; eauto. }
+    destruct I as [It Ic Io Is Iq Ib Il Ii Isub].
+    constructor; rewrite ?LO; cbn [mk st_op st_flock st_fs st_log]; auto.
+    + intros o r H C. destruct (KM o r H) as [A B]. eapply Hkeep; eauto.
+    + intros hh Hh. destruct (Hsome hh Hh) as [F [r [A B]]]. destruct (Io hh F) as [r' [A' C']].
+      rewrite A in A'. inv_eq. exists r'. unfold kill_map. rewrite A, B. auto.
     + intros o r H. destruct (KM o r H). eapply Ib; eauto.
     + intros o r H. destruct (KM o r H). eapply Il; eauto.
+    + intros o r H. destruct (KM o r H). eapply Ii; eauto.
     + intros o r H. destruct (KM o r H). eapply Isub; eauto.
+  - (* OCheckpoint *)
+    destruct (st_op s o) as [r|] eqn:H; [|exact I]. destruct (o_pc r) eqn:P; try exact I.
+    eapply inv_data; eauto. now rewrite P.
+  - (* ORestore *)
+    destruct (st_op s o) as [r|] eqn:H; [|exact I]. destruct (o_pc r) eqn:P; try exact I.
+    rewrite KEEP.
+    destruct (crit_facts s o r I H) as (F & T & N & E); [now rewrite P|].
+    apply inv_upd_same; side I H P F.
 Qed.
 
 Theorem inv_run : forall ops s, Inv v s -> Inv v (run v ops s).
@@ -377,10 +540,20 @@ Qed.
 Theorem data_inside_lock : data_inside_lock_stmt v.
 Proof. intros ops s. apply (inv_scan v s (inv_reach ops)). Qed.
 
+(* ------------------------------------------------------------------ 5. the lock table, the name LOCK and its inode *)
+Theorem single_lock : single_lock_stmt v.
+Proof. intros ops s. apply (inv_tbl v s (inv_reach ops)). Qed.
+Theorem lock_name_stable : lock_name_stable_stmt v.
+Proof.
+  intros ops o r s H. pose proof (inv_reach ops) as I. fold s in I.
+  destruct (o_pc r) eqn:P; auto;
+    (split; [eapply (inv_lockfile v s I); eauto; now rewrite P | symmetry; eapply (inv_ino v s I); eauto; now rewrite P]).
+Qed.
+
 End Step.
 
 Lemma scan_none_absorbs : forall l, fold_left scan_ev l None = None.
-Proof. induction l; simpl; auto. Qed.
+Proof. induction l; cbn; auto. Qed.
 Lemma scan_prefix : forall l1 l2 a, scan (l1 ++ l2) = Some a -> exists b, scan l1 = Some b.
 Proof.
   intros l1 l2 a H. unfold scan in *. rewrite fold_left_app in H.
@@ -396,7 +569,7 @@ Proof.
   { intros -> Ne. destruct (IH o eq_refl) as [la [lb [A B]]]. exists la, (lb ++ [e]). split.
     - rewrite A, <- app_assoc. reflexivity.
     - intro X. apply in_app_or in X. destruct X as [X|[X|[]]]; [now apply B | now apply Ne]. }
-  destruct e; simpl in H.
+  destruct e; cbn in H.
   - apply KEEP; [now inv_eq | discriminate].
   - apply KEEP; [now inv_eq | discriminate].
   - apply KEEP; [now inv_eq | discriminate].
@@ -406,15 +579,16 @@ Proof.
   - destruct (holds h o0); [|discriminate]. apply KEEP; [now inv_eq | discriminate].
   - destruct (holds h o0); discriminate.
   - apply KEEP; [now inv_eq | discriminate].
+  - apply KEEP; [now inv_eq | discriminate].
 Qed.
 
-Theorem lock_before_recovery : forall v, lock_before_recovery_stmt v.
+Theorem lock_before_recovery : forall v, restore_keeps_lock_name v = true -> lock_before_recovery_stmt v.
 Proof.
-  intros v ops l1 l2 o k H.
-  pose proof (data_inside_lock v ops) as S. simpl in S. rewrite H in S.
+  intros v K ops l1 l2 o k H.
+  pose proof (data_inside_lock v K ops) as S. cbn in S. rewrite H in S.
   replace (l1 ++ EvData o k :: l2) with ((l1 ++ [EvData o k]) ++ l2) in S by (rewrite <- app_assoc; reflexivity).
   destruct (scan_prefix _ _ _ S) as [b B]. rewrite scan_snoc in B.
-  destruct (scan l1) as [h|] eqn:E; [|discriminate]. simpl in B.
+  destruct (scan l1) as [h|] eqn:E; [|discriminate]. cbn in B.
   destruct (holds h o) eqn:Hh; [|discriminate]. apply holds_true in Hh. subst h.
   now apply scan_owner_acquired.
 Qed.
@@ -423,34 +597,36 @@ Qed.
 Local Arguments run : simpl never.
 Local Arguments apply_op : simpl never.
 Local Arguments lock_after_open : simpl never.
+Local Arguments open_lock : simpl never.
+Local Arguments wr_lock : simpl never.
 Local Arguments fs_dirs : simpl never.
 Lemma apply_step_some : forall v m h f l o r,
   apply_op v (mk (upd m o (Some r)) h f l) (OStep o) = step_opener v (mk (upd m o (Some r)) h f l) o r.
-Proof. intros. unfold apply_op. simpl. now rewrite upd_eq. Qed.
+Proof. intros. unfold apply_op. cbn. now rewrite upd_eq. Qed.
 Lemma apply_step_none : forall v m h f l o,
   apply_op v (mk (upd m o None) h f l) (OStep o) = mk (upd m o None) h f l.
-Proof. intros. unfold apply_op. simpl. now rewrite upd_eq. Qed.
+Proof. intros. unfold apply_op. cbn. now rewrite upd_eq. Qed.
 Lemma run_steps_none : forall v n m h f l o,
   run v (repeat (OStep o) n) (mk (upd m o None) h f l) = mk (upd m o None) h f l.
-Proof. induction n; intros; simpl repeat; [reflexivity|]. rewrite run_cons, apply_step_none. apply IHn. Qed.
+Proof. induction n; intros; cbn [repeat]; [reflexivity|]. rewrite run_cons, apply_step_none. apply IHn. Qed.
 Lemma apply_begin : forall v m h f l o p opts, m o = None ->
   apply_op v (mk m h f l) (OBegin o p opts) =
-  mk (upd m o (Some {| o_proc := p; o_opts := opts; o_pc := PStart; o_fds := 0 |})) h f l.
-Proof. intros. unfold apply_op. simpl. now rewrite H. Qed.
+  mk (upd m o (Some {| o_proc := p; o_opts := opts; o_pc := PStart; o_fds := 0; o_ino := 0 |})) h f l.
+Proof. intros. unfold apply_op. cbn. now rewrite H. Qed.
 Lemma state_eta : forall s, s = mk (st_op s) (st_flock s) (st_fs s) (st_log s).
 Proof. now destruct s. Qed.
 
 (* invalid options: the attempt ends at validate() *)
 Lemma open_invalid : forall v s o p opts, st_op s o = None -> op_valid opts = false ->
-  run v (open_ops o p opts) s = mk (upd (upd (st_op s) o (Some {| o_proc := p; o_opts := opts; o_pc := PStart; o_fds := 0 |})) o None)
+  run v (open_ops o p opts) s = mk (upd (upd (st_op s) o (Some {| o_proc := p; o_opts := opts; o_pc := PStart; o_fds := 0; o_ino := 0 |})) o None)
                                   (st_flock s) (st_fs s) (st_log s ++ [EvInvalid o]).
 Proof.
   intros v s o p opts N V. rewrite (state_eta s) at 1. unfold open_ops. rewrite run_cons, apply_begin by assumption.
-  simpl repeat. rewrite run_cons, apply_step_some. unfold step_opener. simpl. rewrite V.
+  cbn [repeat]. rewrite run_cons, apply_step_some. unfold step_opener. cbn. rewrite V.
   apply (run_steps_none v 7).
 Qed.
 
-(* the fs after the two steps that precede try_lock *)
+(* the fs after the two steps that precede try_lock, when LOCK exists *)
 Definition fs_lockopen (v : variant) (f : fs) : fs := set_lock f (lock_after_open v (f_lock f)).
 Definition ev_dirs (v : variant) (f : fs) (o : oid) (opts : oopts) : event :=
   EvMkdir o (negb (dirs_eqb f (fs_dirs v f opts))).
@@ -459,87 +635,119 @@ Definition ev_lockopen (v : variant) (f : fs) (o : oid) : event :=
 
 Lemma f_lock_fs_dirs : forall v f opts, f_lock (fs_dirs v f opts) = f_lock f.
 Proof. intros. unfold fs_dirs. destruct (subdirs_before_lock v); reflexivity. Qed.
+Lemma f_lock_ino_fs_dirs : forall v f opts, f_lock_ino (fs_dirs v f opts) = f_lock_ino f.
+Proof. intros. unfold fs_dirs. destruct (subdirs_before_lock v); reflexivity. Qed.
 
-(* valid options, lock owned by somebody: refused at try_lock *)
-Lemma open_refused : forall v s o p opts hh, st_op s o = None -> op_valid opts = true -> st_flock s = Some hh ->
+(* valid options, the lock on the inode called LOCK owned by somebody: refused at try_lock *)
+Lemma open_refused : forall v s o p opts hh, st_op s o = None -> op_valid opts = true -> lock_owner s = Some hh ->
   exists m', run v (open_ops o p opts) s =
-    mk (upd m' o None) (Some hh) (fs_lockopen v (fs_dirs v (st_fs s) opts))
+    mk (upd m' o None) (st_flock s) (fs_lockopen v (fs_dirs v (st_fs s) opts))
        (((st_log s ++ [ev_dirs v (st_fs s) o opts]) ++ [ev_lockopen v (fs_dirs v (st_fs s) opts) o]) ++ [EvRefused o]).
 Proof.
-  intros v s o p opts hh N V F. destruct s as [m h f l]. simpl in N, F. subst h. unfold open_ops, st_fs, st_log. change (Build_state m) with (mk m). rewrite run_cons, apply_begin by assumption.
-  simpl repeat.
-  rewrite run_cons, apply_step_some. unfold step_opener at 1. simpl. rewrite V.
-  rewrite run_cons, apply_step_some. unfold step_opener at 1. simpl.
-  rewrite run_cons, apply_step_some. unfold step_opener at 1. simpl.
-  rewrite run_cons, apply_step_some. unfold step_opener at 1. simpl.
-  repeat (rewrite run_cons, apply_step_none). rewrite run_nil. eexists. unfold fs_lockopen, ev_lockopen, ev_dirs, fs_dirs.
+  intros v s o p opts hh N V F.
+  pose proof (lock_owner_named s hh F) as NA. rewrite (lock_owner_find s NA) in F.
+  destruct s as [m h f l]. cbn [st_op st_flock st_fs st_log] in *. change (Build_state m) with (mk m).
+  assert (NA' : f_lock (fs_dirs v f opts) <> LAbsent) by now rewrite f_lock_fs_dirs.
+  unfold open_ops. rewrite run_cons, apply_begin by assumption.
+  cbn [repeat].
+  rewrite run_cons, apply_step_some. unfold step_opener at 1. cbn. rewrite V.
+  rewrite run_cons, apply_step_some. unfold step_opener at 1. cbn.
+  rewrite run_cons, apply_step_some. unfold step_opener at 1. cbn.
+  rewrite (open_lock_named v _ NA'). cbn [f_lock_ino set_lock]. rewrite f_lock_ino_fs_dirs.
+  rewrite run_cons, apply_step_some. unfold step_opener at 1. cbn. rewrite F.
+  repeat (rewrite run_cons, apply_step_none). rewrite run_nil. eexists. unfold fs_lockopen, ev_lockopen, ev_dirs.
   reflexivity.
 Qed.
 
-(* valid options, lock free: the open runs to the end *)
+(* valid options, no lock anywhere: the open runs to the end *)
 Definition fs_after_open (v : variant) (f : fs) (p : proc) (opts : oopts) : fs :=
-  let f3 := set_lock (set_lock (fs_lockopen v (fs_dirs v f opts)) LEmpty) (LPid p) in
+  let f3 := set_lock (set_lock (open_lock v (fs_dirs v f opts)) LEmpty) (LPid p) in
   bump (if subdirs_before_lock v then f3 else mk_sub f3 opts).
-Lemma open_free : forall v s o p opts, st_op s o = None -> op_valid opts = true -> st_flock s = None ->
+Lemma open_free : forall v s o p opts, st_op s o = None -> op_valid opts = true -> st_flock s = [] ->
   exists m' l', run v (open_ops o p opts) s =
-    mk (upd m' o (Some {| o_proc := p; o_opts := opts; o_pc := PLive; o_fds := 1 |})) (Some o)
+    mk (upd m' o (Some {| o_proc := p; o_opts := opts; o_pc := PLive; o_fds := 1;
+                          o_ino := f_lock_ino (open_lock v (fs_dirs v (st_fs s) opts)) |}))
+       [(f_lock_ino (open_lock v (fs_dirs v (st_fs s) opts)), o)]
        (fs_after_open v (st_fs s) p opts) l'.
 Proof.
-  intros v s o p opts N V F. destruct s as [m h f l]. simpl in N, F. subst h. unfold open_ops, st_fs, st_log. change (Build_state m) with (mk m). rewrite run_cons, apply_begin by assumption.
-  simpl repeat.
-  rewrite run_cons, apply_step_some. unfold step_opener at 1. simpl. rewrite V.
-  rewrite run_cons, apply_step_some. unfold step_opener at 1. simpl.
-  rewrite run_cons, apply_step_some. unfold step_opener at 1. simpl.
-  rewrite run_cons, apply_step_some. unfold step_opener at 1. simpl.
-  rewrite run_cons, apply_step_some. unfold step_opener at 1. simpl.
-  rewrite run_cons, apply_step_some. unfold step_opener at 1. simpl.
-  rewrite run_cons, apply_step_some. unfold step_opener at 1. simpl.
-  rewrite run_cons, apply_step_some. unfold step_opener at 1. simpl.
-  rewrite run_nil. eexists. eexists. unfold fs_after_open, fs_lockopen, fs_dirs. reflexivity.
+  intros v s o p opts N V F. destruct s as [m h f l]. cbn [st_op st_flock st_fs st_log] in *. subst h.
+  change (Build_state m) with (mk m).
+  pose proof (open_lock_present v (fs_dirs v f opts)) as NA.
+  unfold open_ops. rewrite run_cons, apply_begin by assumption.
+  cbn [repeat].
+  rewrite run_cons, apply_step_some. unfold step_opener at 1. cbn. rewrite V.
+  rewrite run_cons, apply_step_some. unfold step_opener at 1. cbn.
+  rewrite run_cons, apply_step_some. unfold step_opener at 1. cbn.
+  rewrite run_cons, apply_step_some. unfold step_opener at 1. cbn.
+  rewrite run_cons, apply_step_some. unfold step_opener at 1. cbn.
+  rewrite (wr_lock_named _ LEmpty NA).
+  rewrite run_cons, apply_step_some. unfold step_opener at 1. cbn.
+  rewrite run_cons, apply_step_some. unfold step_opener at 1. cbn.
+  rewrite wr_lock_set by discriminate.
+  rewrite run_cons, apply_step_some. unfold step_opener at 1. cbn.
+  rewrite run_nil. eexists. eexists. unfold fs_after_open. reflexivity.
+Qed.
+Lemma fs_after_open_lock : forall v f p opts,
+  f_lock (fs_after_open v f p opts) = LPid p /\
+  f_lock_ino (fs_after_open v f p opts) = f_lock_ino (open_lock v (fs_dirs v f opts)).
+Proof. intros. unfold fs_after_open. destruct (subdirs_before_lock v); cbn; auto. Qed.
+
+(* the state after a completed open: the opener is live and owns the lock on the inode called LOCK *)
+Lemma open_free_live : forall v s o p opts, st_op s o = None -> op_valid opts = true -> st_flock s = [] ->
+  let s2 := run v (open_ops o p opts) s in
+  is_live s2 o = true /\ lock_owner s2 = Some o.
+Proof.
+  intros v s o p opts N V F s2. subst s2.
+  destruct (open_free v s o p opts N V F) as [m' [l' E]]. rewrite E.
+  unfold is_live, pc_of, lock_owner. cbn [mk st_op st_flock st_fs]. rewrite upd_eq.
+  destruct (fs_after_open_lock v (st_fs s) p opts) as [A B]. rewrite A, B. cbn. now rewrite Nat.eqb_refl.
 Qed.
 
 (* ------------------------------------------------------------------ 2. release / reopen *)
-Theorem free_open_succeeds : forall v, free_open_succeeds_stmt v.
+Theorem free_open_succeeds : forall v, restore_keeps_lock_name v = true -> free_open_succeeds_stmt v.
 Proof.
-  intros v ops o' p' opts' s F N V s2.
-  destruct (open_free v s o' p' opts' N V F) as [m' [l' E]]. subst s2. rewrite E.
-  unfold is_live, pc_of. simpl. rewrite upd_eq. auto.
+  intros v K ops o' p' opts' s F N V s2.
+  apply open_free_live; auto. eapply inv_free; eauto. apply (inv_reach v K).
 Qed.
 
 Theorem held_open_refused : forall v, held_open_refused_stmt v.
 Proof.
   intros v ops h o' p' opts' s F N s2. subst s2.
   destruct (op_valid opts') eqn:V.
-  - destruct (open_refused v s o' p' opts' h N V F) as [m' E]. rewrite E. simpl. rewrite upd_eq. auto.
-  - rewrite (open_invalid v s o' p' opts' N V). simpl. rewrite upd_eq. auto.
+  - destruct (open_refused v s o' p' opts' h N V F) as [m' E]. rewrite E. cbn [mk st_op]. rewrite upd_eq. split; [reflexivity|].
+    pose proof (lock_owner_named s h F) as NA. rewrite (lock_owner_find s NA) in F.
+    unfold lock_owner, fs_lockopen. cbn [mk st_fs st_flock set_lock f_lock f_lock_ino].
+    rewrite f_lock_fs_dirs, f_lock_ino_fs_dirs, F.
+    unfold lock_after_open. destruct (f_lock (st_fs s)); [contradiction | |]; destruct (trunc_on_open v); reflexivity.
+  - rewrite (open_invalid v s o' p' opts' N V). cbn [mk st_op]. rewrite upd_eq. auto.
 Qed.
 
 (* each way of letting go frees the kernel's lock *)
 Lemma release_frees : forall v s o r rel, Inv v s -> st_op s o = Some r -> o_pc r = PLive ->
-  In rel (releases o (o_proc r)) -> st_flock (run v rel s) = None.
+  In rel (releases o (o_proc r)) -> st_flock (run v rel s) = [].
 Proof.
   intros v s o r rel I H P R.
-  assert (F : st_flock s = Some o) by (eapply (inv_crit v s I); eauto; now rewrite P).
+  assert (F : lock_owner s = Some o) by (eapply (inv_crit v s I); eauto; now rewrite P).
+  destruct (inv_held v s o I F) as [T _].
   rewrite (state_eta s). destruct R as [<-|[<-|[<-|[]]]].
-  - unfold close_ops. rewrite run_cons. unfold apply_op at 1. simpl. rewrite H, P.
-    rewrite run_cons, apply_step_some. unfold step_opener. simpl. rewrite F. apply unlock_self.
-  - unfold drop_ops. rewrite run_cons. unfold apply_op at 1. simpl. rewrite H, P.
-    rewrite run_cons, apply_step_some. unfold step_opener at 1. simpl.
-    rewrite run_cons, apply_step_some. unfold step_opener at 1. simpl. rewrite F. apply unlock_self.
-  - rewrite run_cons. unfold apply_op. simpl. unfold kill_flock. rewrite F, H, Nat.eqb_refl. reflexivity.
+  - unfold close_ops. rewrite run_cons. unfold apply_op at 1. cbn. rewrite H, P.
+    rewrite run_cons, apply_step_some. unfold step_opener. cbn. rewrite T. cbn. now rewrite Nat.eqb_refl.
+  - unfold drop_ops. rewrite run_cons. unfold apply_op at 1. cbn. rewrite H, P.
+    rewrite run_cons, apply_step_some. unfold step_opener at 1. cbn.
+    rewrite run_cons, apply_step_some. unfold step_opener at 1. cbn. rewrite T. cbn. now rewrite Nat.eqb_refl.
+  - rewrite run_cons. unfold apply_op. cbn. unfold kill_flock, dies. rewrite T. cbn. rewrite H, Nat.eqb_refl. reflexivity.
 Qed.
 
-Theorem release_reopens : forall v, release_reopens_stmt v.
+Theorem release_reopens : forall v, restore_keeps_lock_name v = true -> release_reopens_stmt v.
 Proof.
-  intros v ops o r rel o' p' opts' s H P R s1 N V s2.
-  assert (F1 : st_flock s1 = None) by (eapply release_frees; eauto; apply inv_reach).
-  destruct (open_free v s1 o' p' opts' N V F1) as [m' [l' E]]. subst s2. rewrite E.
-  unfold is_live, pc_of. simpl. rewrite upd_eq. auto.
+  intros v K ops o r rel o' p' opts' s H P R s1 N V s2.
+  assert (F1 : st_flock s1 = []) by (eapply release_frees; eauto; apply (inv_reach v K)).
+  now apply open_free_live.
 Qed.
 
 (* ------------------------------------------------------------------ 4. a failed open touches nothing *)
 Lemma filter_data_snoc : forall l e, is_data e = false -> filter is_data (l ++ [e]) = filter is_data l.
-Proof. intros. rewrite filter_app. simpl. rewrite H. apply app_nil_r. Qed.
+Proof. intros. rewrite filter_app. cbn. rewrite H. apply app_nil_r. Qed.
 
 Lemma lock_after_open_same : forall v c, trunc_on_open v = false -> c <> LAbsent -> lock_after_open v c = c.
 Proof. intros v c T N. unfold lock_after_open. rewrite T. destruct c; congruence. Qed.
@@ -547,7 +755,7 @@ Lemma wanted_present_spec : forall f o, wanted_present f o = true ->
   f_std f = true /\ (op_vlog o = true -> f_vlog f = true) /\ (op_ver o = true -> f_ver f = true).
 Proof.
   intros f o H. unfold wanted_present in H. apply andb_prop in H. destruct H as [H H3]. apply andb_prop in H. destruct H as [H1 H2].
-  repeat split; auto; intros E; rewrite E in *; simpl in *; auto.
+  repeat split; auto; intros E; rewrite E in *; cbn in *; auto.
 Qed.
 Lemma fs_dirs_same : forall v f o, f_base f = true ->
   (subdirs_before_lock v = true -> wanted_present f o = true) -> fs_dirs v f o = f.
@@ -557,7 +765,7 @@ Proof.
 Qed.
 
 (* the owner of the lock has created the base directory and LOCK *)
-Lemma owner_created : forall v s hh, Inv v s -> st_flock s = Some hh ->
+Lemma owner_created : forall v s hh, Inv v s -> lock_owner s = Some hh ->
   f_base (st_fs s) = true /\ f_lock (st_fs s) <> LAbsent.
 Proof.
   intros v s hh I F. destruct (inv_owner v s I hh F) as [r [A C]]. apply critical_past_dirs in C. split.
@@ -566,6 +774,7 @@ Proof.
 Qed.
 
 Lemma failed_open_touches_nothing : forall v ops o p opts,
+  restore_keeps_lock_name v = true ->
   trunc_on_open v = false ->
   let s := run v ops s0 in
   (subdirs_before_lock v = true -> wanted_present (st_fs s) opts = true) ->
@@ -574,25 +783,26 @@ Lemma failed_open_touches_nothing : forall v ops o p opts,
   st_op s' o = None ->
   st_fs s' = st_fs s /\ filter is_data (st_log s') = filter is_data (st_log s).
 Proof.
-  intros v ops o p opts T s W N s' N'. pose proof (inv_reach v ops) as I. fold s in I. subst s'.
+  intros v ops o p opts K T s W N s' N'. pose proof (inv_reach v K ops) as I. fold s in I. subst s'.
   destruct (op_valid opts) eqn:V.
-  - destruct (st_flock s) as [hh|] eqn:F.
-    + destruct (open_refused v s o p opts hh N V F) as [m' E]. rewrite E. simpl.
+  - destruct (lock_owner s) as [hh|] eqn:F.
+    + destruct (open_refused v s o p opts hh N V F) as [m' E]. rewrite E. cbn [mk st_fs st_log].
       destruct (owner_created v s hh I F) as [B L]. split.
       * unfold fs_lockopen. rewrite (fs_dirs_same v (st_fs s) opts B W).
         rewrite (lock_after_open_same v _ T L). apply set_lock_same.
       * rewrite !filter_data_snoc; reflexivity.
-    + destruct (open_free v s o p opts N V F) as [m' [l' E]]. rewrite E in N'. simpl in N'. rewrite upd_eq in N'. discriminate.
-  - rewrite (open_invalid v s o p opts N V). simpl. split; [reflexivity|]. now rewrite filter_data_snoc.
+    + destruct (open_free v s o p opts N V (inv_free v s I F)) as [m' [l' E]]. rewrite E in N'. cbn [mk st_op] in N'. rewrite upd_eq in N'. discriminate.
+  - rewrite (open_invalid v s o p opts N V). cbn [mk st_fs st_log]. split; [reflexivity|]. now rewrite filter_data_snoc.
 Qed.
 
 (* every variant that neither truncates on open nor creates the sub-directories before the lock *)
-Theorem refused_open_touches_nothing_gen : forall v, trunc_on_open v = false -> subdirs_before_lock v = false ->
+Theorem refused_open_touches_nothing_gen : forall v, restore_keeps_lock_name v = true ->
+  trunc_on_open v = false -> subdirs_before_lock v = false ->
   refused_open_touches_nothing_stmt v.
-Proof. intros v T S ops o p opts s N s' N'. apply failed_open_touches_nothing; auto. rewrite S. discriminate. Qed.
-Theorem refused_open_same_layout_touches_nothing_gen : forall v, trunc_on_open v = false ->
+Proof. intros v K T S ops o p opts s N s' N'. apply failed_open_touches_nothing; auto. rewrite S. discriminate. Qed.
+Theorem refused_open_same_layout_touches_nothing_gen : forall v, restore_keeps_lock_name v = true -> trunc_on_open v = false ->
   refused_open_same_layout_touches_nothing_stmt v.
-Proof. intros v T ops o p opts s N W s' N'. apply failed_open_touches_nothing; auto. Qed.
+Proof. intros v K T ops o p opts s N W s' N'. apply failed_open_touches_nothing; auto. Qed.
 Theorem refused_open_touches_nothing_fixed_dirs : refused_open_touches_nothing_stmt fixed_dirs.
 Proof. intros ops o p opts s N s' N'. apply failed_open_touches_nothing; auto. discriminate. Qed.
 Theorem refused_open_same_layout_touches_nothing_fixed : refused_open_same_layout_touches_nothing_stmt fixed.
@@ -650,48 +860,50 @@ Proof.
   assert (E : apply_op v s (ODropDetached o) = mk (upd (st_op s) o (Some (at_pc r PDetached 1))) (st_flock s) (st_fs s) (st_log s)).
   { unfold apply_op. rewrite H, P, D. reflexivity. }
   unfold drop_detached_ops. rewrite !run_cons, !run_nil, E.
-  rewrite apply_step_some. unfold step_opener at 1. simpl.
-  rewrite apply_step_some. unfold step_opener at 1. simpl. reflexivity.
+  rewrite apply_step_some. unfold step_opener at 1. cbn.
+  rewrite apply_step_some. unfold step_opener at 1. cbn. reflexivity.
 Qed.
+(* all four fields of the variant are split (complete, 8 closed cases): vm_compute never meets an abstract field *)
 Theorem detached_drop_reopens_old_refuted : forall v, detached_drop_closes v = false -> ~ detached_drop_reopens_old_stmt v.
 Proof.
   intros v D H.
-  assert (X := H (open_ops 1 0 plain) 1 {| o_proc := 0; o_opts := plain; o_pc := PLive; o_fds := 1 |} 2 0 plain).
-  destruct v as [[|] [|] [|]]; try discriminate D;
+  assert (X := H (open_ops 1 0 plain) 1 {| o_proc := 0; o_opts := plain; o_pc := PLive; o_fds := 1; o_ino := 1 |} 2 0 plain).
+  destruct v as [[|] [|] [|] [|]]; try discriminate D;
     vm_compute in X; specialize (X eq_refl eq_refl eq_refl eq_refl); discriminate.
 Qed.
 Theorem detached_drop_reopens_refuted : forall v, detached_drop_closes v = false -> ~ detached_drop_reopens_stmt v.
 Proof.
   intros v D H.
-  assert (X := H (open_ops 1 0 plain) 1 {| o_proc := 0; o_opts := plain; o_pc := PLive; o_fds := 1 |} 2 0 plain).
-  destruct v as [[|] [|] [|]]; try discriminate D;
+  assert (X := H (open_ops 1 0 plain) 1 {| o_proc := 0; o_opts := plain; o_pc := PLive; o_fds := 1; o_ino := 1 |} 2 0 plain).
+  destruct v as [[|] [|] [|] [|]]; try discriminate D;
     vm_compute in X; specialize (X eq_refl eq_refl eq_refl eq_refl); destruct X as [X _]; discriminate.
 Qed.
 Theorem detached_drop_keeps_lock : forall v ops o r o' p' opts',
+  restore_keeps_lock_name v = true ->
   detached_drop_closes v = false ->
   let s := run v ops s0 in
   st_op s o = Some r -> o_pc r = PLive ->
   let s1 := run v [ODropDetached o] s in
   st_op s1 o' = None ->
-  st_flock s1 = Some o /\ st_op (run v (open_ops o' p' opts') s1) o' = None /\
+  lock_owner s1 = Some o /\ st_op (run v (open_ops o' p' opts') s1) o' = None /\
   (op_valid opts' = true -> st_op (run v [ORuntimeGone o] s1) o' = None ->
    is_live (run v (open_ops o' p' opts') (run v [ORuntimeGone o] s1)) o' = true).
 Proof.
-  intros v ops o r o' p' opts' D s H P s1 N.
-  pose proof (inv_reach v ops) as I. fold s in I.
-  assert (F : st_flock s = Some o) by (eapply (inv_crit v s I); eauto; now rewrite P).
-  assert (E1 : s1 = mk (upd (st_op s) o (Some (at_pc r PDetached 1))) (Some o) (st_fs s) (st_log s)).
-  { subst s1. rewrite run_cons, run_nil. unfold apply_op. rewrite H, P, F, D. reflexivity. }
-  assert (F1 : st_flock s1 = Some o) by (rewrite E1; reflexivity).
+  intros v ops o r o' p' opts' K D s H P s1 N.
+  pose proof (inv_reach v K ops) as I. fold s in I.
+  assert (F : lock_owner s = Some o) by (eapply (inv_crit v s I); eauto; now rewrite P).
+  destruct (inv_held v s o I F) as [T NA].
+  assert (E1 : s1 = mk (upd (st_op s) o (Some (at_pc r PDetached 1))) (st_flock s) (st_fs s) (st_log s)).
+  { subst s1. rewrite run_cons, run_nil. unfold apply_op. rewrite H, P, D. reflexivity. }
+  assert (F1 : lock_owner s1 = Some o) by (rewrite E1; exact F).
   split; [exact F1|]. split.
   - destruct (op_valid opts') eqn:V.
-    + destruct (open_refused v s1 o' p' opts' o N V F1) as [m' E]. rewrite E. simpl. apply upd_eq.
-    + rewrite (open_invalid v s1 o' p' opts' N V). simpl. apply upd_eq.
+    + destruct (open_refused v s1 o' p' opts' o N V F1) as [m' E]. rewrite E. cbn [mk st_op]. apply upd_eq.
+    + rewrite (open_invalid v s1 o' p' opts' N V). cbn [mk st_op]. apply upd_eq.
   - intros V N2.
-    assert (F2 : st_flock (run v [ORuntimeGone o] s1) = None).
-    { rewrite E1, run_cons, run_nil. unfold apply_op. simpl. rewrite upd_eq. simpl. now rewrite Nat.eqb_refl. }
-    destruct (open_free v _ o' p' opts' N2 V F2) as [m' [l' E]]. rewrite E.
-    unfold is_live, pc_of. simpl. now rewrite upd_eq.
+    assert (F2 : st_flock (run v [ORuntimeGone o] s1) = []).
+    { rewrite E1, run_cons, run_nil. unfold apply_op. cbn. rewrite upd_eq. cbn. rewrite T. cbn. now rewrite Nat.eqb_refl. }
+    apply open_free_live; auto.
 Qed.
 
 (* the record for the code as it was right before the repair (variant fixed_dirs): both forms of the statement fail,
@@ -705,42 +917,45 @@ Theorem detached_drop_witness_fixed_dirs :
   let s1 := run fixed_dirs (drop_detached_ops 1) s in
   let s2 := run fixed_dirs (open_ops 2 0 plain) s1 in
   let s3 := run fixed_dirs (open_ops 2 0 plain) (run fixed_dirs [ORuntimeGone 1] s2) in
-  is_live s 1 = true /\ pc_of s1 1 = Some PDetached /\ st_flock s1 = Some 1 /\
+  is_live s 1 = true /\ pc_of s1 1 = Some PDetached /\ lock_owner s1 = Some 1 /\
   st_op s2 2 = None /\ last (st_log s2) (EvGone 0) = EvRefused 2 /\ st_fs s2 = st_fs s /\
-  is_live s3 2 = true /\ st_flock s3 = Some 2.
+  is_live s3 2 = true /\ lock_owner s3 = Some 2.
 Proof. vm_compute. repeat split; reflexivity. Qed.
 (* the same script on the repaired code: opener 2 gets in at once, ORuntimeGone is not needed *)
 Theorem detached_drop_witness_fixed_drop :
   let s := run fixed_drop wit_ops s0 in
   let s1 := run fixed_drop (drop_detached_ops 1) s in
   let s2 := run fixed_drop (open_ops 2 0 plain) s1 in
-  is_live s 1 = true /\ pc_of s1 1 = None /\ st_flock s1 = None /\
-  is_live s2 2 = true /\ st_flock s2 = Some 2 /\
+  is_live s 1 = true /\ pc_of s1 1 = None /\ lock_owner s1 = None /\ st_flock s1 = [] /\
+  is_live s2 2 = true /\ lock_owner s2 = Some 2 /\
   st_log s1 = st_log s ++ [EvData 1 KShutdown; EvRelease 1; EvGone 1].
 Proof. vm_compute. repeat split; reflexivity. Qed.
 
 (* the repaired code (every variant with detached_drop_closes = true): when drop() returns the store is closed,
    the opener gone, the lock free — and the next open succeeds at once *)
-Theorem detached_drop_releases : forall v, detached_drop_closes v = true -> detached_drop_releases_stmt v.
+Theorem detached_drop_releases : forall v, restore_keeps_lock_name v = true -> detached_drop_closes v = true ->
+  detached_drop_releases_stmt v.
 Proof.
-  intros v D ops o r s H P s1.
-  pose proof (inv_reach v ops) as I. fold s in I.
-  assert (F : st_flock s = Some o) by (eapply (inv_crit v s I); eauto; now rewrite P).
-  assert (E : exists m', s1 = mk (upd m' o None) None (bump (st_fs s))
+  intros v K D ops o r s H P s1.
+  pose proof (inv_reach v K ops) as I. fold s in I.
+  assert (F : lock_owner s = Some o) by (eapply (inv_crit v s I); eauto; now rewrite P).
+  destruct (inv_held v s o I F) as [T NA].
+  assert (E : exists m', s1 = mk (upd m' o None) [] (bump (st_fs s))
                               ((st_log s ++ [EvData o KShutdown]) ++ [EvRelease o; EvGone o])).
   { subst s1. rewrite (state_eta s). unfold drop_detached_ops.
-    rewrite run_cons. unfold apply_op at 1. simpl. rewrite H, P, D.
-    rewrite run_cons, apply_step_some. unfold step_opener at 1. simpl.
-    rewrite run_cons, apply_step_some. unfold step_opener at 1. simpl.
-    rewrite run_nil, F, unlock_self. eexists. reflexivity. }
-  destruct E as [m' E]. rewrite E. simpl. rewrite upd_eq, <- app_assoc. auto.
+    rewrite run_cons. unfold apply_op at 1. cbn. rewrite H, P, D.
+    rewrite run_cons, apply_step_some. unfold step_opener at 1. cbn.
+    rewrite run_cons, apply_step_some. unfold step_opener at 1. cbn.
+    rewrite run_nil, T. cbn. rewrite Nat.eqb_refl. eexists. reflexivity. }
+  destruct E as [m' E]. rewrite E. cbn [mk st_op st_flock st_log]. rewrite upd_eq, <- app_assoc.
+  repeat split; auto. unfold lock_owner. cbn [mk st_fs st_flock]. now destruct (f_lock (bump (st_fs s))).
 Qed.
-Theorem detached_drop_reopens : forall v, detached_drop_closes v = true -> detached_drop_reopens_stmt v.
+Theorem detached_drop_reopens : forall v, restore_keeps_lock_name v = true -> detached_drop_closes v = true ->
+  detached_drop_reopens_stmt v.
 Proof.
-  intros v D ops o r o' p' opts' s H P s1 N V s2.
-  destruct (detached_drop_releases v D ops o r H P) as [_ [F1 _]]. fold s in F1. fold s1 in F1.
-  destruct (open_free v s1 o' p' opts' N V F1) as [m' [l' E]]. subst s2. rewrite E.
-  unfold is_live, pc_of. simpl. rewrite upd_eq. auto.
+  intros v K D ops o r o' p' opts' s H P s1 N V s2.
+  destruct (detached_drop_releases v K D ops o r H P) as [_ [_ [F1 _]]]. fold s in F1. fold s1 in F1.
+  now apply open_free_live.
 Qed.
 
 (* the state "dropped but kept alive by the background tasks" is unreachable for the repaired code *)
@@ -750,25 +965,29 @@ Proof.
   intros v s o r L H. pose proof (L o r H) as Lo.
   unfold step_opener. destruct (o_pc r); try exact L;
     repeat match goal with |- context [if ?c then _ else _] => destruct c
-                      | |- context [match st_flock s with _ => _ end] => destruct (st_flock s) end;
-    intros o1 r1; simpl; intro H1; look o1 o; inv_eq; simpl; eauto; discriminate.
+                      | |- context [match lk_find ?t ?i with _ => _ end] => destruct (lk_find t i) end;
+    intros o1 r1; cbn; intro H1; look o1 o; inv_eq; cbn; eauto; discriminate.
 Qed.
 Lemma nodet_apply : forall v s a, detached_drop_closes v = true -> NoDet s -> NoDet (apply_op v s a).
 Proof.
-  intros v s a D L. destruct a as [o p opts | o | o | o | o | o | o | p]; unfold apply_op.
-  - destruct (st_op s o) eqn:H; [exact L|]. intros o1 r1; simpl; intro H1; look o1 o; inv_eq; simpl; eauto; discriminate.
+  intros v s a D L. destruct a as [o p opts | o | o | o | o | o | o | p | o | o]; unfold apply_op.
+  - destruct (st_op s o) eqn:H; [exact L|]. intros o1 r1; cbn; intro H1; look o1 o; inv_eq; cbn; eauto; discriminate.
   - destruct (st_op s o) eqn:H; [|exact L]. now apply nodet_step_opener.
   - destruct (st_op s o) as [r|] eqn:H; [|exact L]. destruct (o_pc r); try exact L.
-    intros o1 r1; simpl; intro H1; look o1 o; inv_eq; simpl; eauto; discriminate.
+    intros o1 r1; cbn; intro H1; look o1 o; inv_eq; cbn; eauto; discriminate.
   - destruct (st_op s o) as [r|] eqn:H; [|exact L]. destruct (o_pc r); try exact L;
-    intros o1 r1; simpl; intro H1; look o1 o; inv_eq; simpl; eauto; discriminate.
+    intros o1 r1; cbn; intro H1; look o1 o; inv_eq; cbn; eauto; discriminate.
   - destruct (st_op s o) as [r|] eqn:H; [|exact L]. rewrite D. destruct (o_pc r); try exact L;
-    intros o1 r1; simpl; intro H1; look o1 o; inv_eq; simpl; eauto; discriminate.
+    intros o1 r1; cbn; intro H1; look o1 o; inv_eq; cbn; eauto; discriminate.
   - destruct (st_op s o) as [r|] eqn:H; [|exact L]. destruct (o_pc r); try exact L;
-    intros o1 r1; simpl; intro H1; look o1 o; inv_eq; simpl; eauto; discriminate.
+    intros o1 r1; cbn; intro H1; look o1 o; inv_eq; cbn; eauto; discriminate.
   - destruct (st_op s o) as [r|] eqn:H; [|exact L]. destruct (o_pc r); exact L.
-  - intros o1 r1. simpl. unfold kill_map. destruct (st_op s o1) as [r0|] eqn:H1; [|discriminate].
+  - intros o1 r1. cbn. unfold kill_map. destruct (st_op s o1) as [r0|] eqn:H1; [|discriminate].
     destruct (Nat.eqb (o_proc r0) p); [discriminate|]. intro. inv_eq. eauto.
+  - destruct (st_op s o) as [r|] eqn:H; [|exact L]. destruct (o_pc r); exact L.
+  - destruct (st_op s o) as [r|] eqn:H; [|exact L]. destruct (o_pc r); try exact L.
+    destruct (restore_keeps_lock_name v);
+    intros o1 r1; cbn; intro H1; look o1 o; inv_eq; cbn; eauto; discriminate.
 Qed.
 Lemma nodet_run : forall v ops s, detached_drop_closes v = true -> NoDet s -> NoDet (run v ops s).
 Proof.
@@ -796,94 +1015,106 @@ Proof.
   intros v vl vr s o r L H. pose proof (L o r H) as Lo.
   unfold step_opener. destruct (o_pc r); try exact L;
     repeat match goal with |- context [if ?c then _ else _] => destruct c
-                      | |- context [match st_flock s with _ => _ end] => destruct (st_flock s) end;
-    intros o1 r1; simpl; intro H1; look o1 o; inv_eq; simpl; eauto.
+                      | |- context [match lk_find ?t ?i with _ => _ end] => destruct (lk_find t i) end;
+    intros o1 r1; cbn; intro H1; look o1 o; inv_eq; cbn; eauto.
 Qed.
 Lemma layout_apply : forall v vl vr s a, layout vl vr s ->
   (forall o p opts, a = OBegin o p opts -> op_vlog opts = vl /\ op_ver opts = vr) ->
   layout vl vr (apply_op v s a).
 Proof.
-  intros v vl vr s a L HB. destruct a as [o p opts | o | o | o | o | o | o | p]; unfold apply_op.
-  - destruct (st_op s o) eqn:H; [exact L|]. intros o1 r1; simpl; intro H1; look o1 o; inv_eq; simpl; eauto.
+  intros v vl vr s a L HB. destruct a as [o p opts | o | o | o | o | o | o | p | o | o]; unfold apply_op.
+  - destruct (st_op s o) eqn:H; [exact L|]. intros o1 r1; cbn; intro H1; look o1 o; inv_eq; cbn; eauto.
   - destruct (st_op s o) eqn:H; [|exact L]. now apply layout_step_opener.
   - destruct (st_op s o) as [r|] eqn:H; [|exact L]. pose proof (L o r H). destruct (o_pc r); try exact L.
-    intros o1 r1; simpl; intro H1; look o1 o; inv_eq; simpl; eauto.
+    intros o1 r1; cbn; intro H1; look o1 o; inv_eq; cbn; eauto.
   - destruct (st_op s o) as [r|] eqn:H; [|exact L]. pose proof (L o r H). destruct (o_pc r); try exact L;
     try destruct (detached_drop_closes v);
-    intros o1 r1; simpl; intro H1; look o1 o; inv_eq; simpl; eauto.
+    intros o1 r1; cbn; intro H1; look o1 o; inv_eq; cbn; eauto.
   - destruct (st_op s o) as [r|] eqn:H; [|exact L]. pose proof (L o r H). destruct (o_pc r); try exact L;
     try destruct (detached_drop_closes v);
-    intros o1 r1; simpl; intro H1; look o1 o; inv_eq; simpl; eauto.
+    intros o1 r1; cbn; intro H1; look o1 o; inv_eq; cbn; eauto.
   - destruct (st_op s o) as [r|] eqn:H; [|exact L]. pose proof (L o r H). destruct (o_pc r); try exact L;
     try destruct (detached_drop_closes v);
-    intros o1 r1; simpl; intro H1; look o1 o; inv_eq; simpl; eauto.
+    intros o1 r1; cbn; intro H1; look o1 o; inv_eq; cbn; eauto.
   - destruct (st_op s o) as [r|] eqn:H; [|exact L]. destruct (o_pc r); exact L.
-  - intros o1 r1. simpl. unfold kill_map. destruct (st_op s o1) as [r0|] eqn:H1; [|discriminate].
+  - intros o1 r1. cbn. unfold kill_map. destruct (st_op s o1) as [r0|] eqn:H1; [|discriminate].
     destruct (Nat.eqb (o_proc r0) p); [discriminate|]. intro. inv_eq. eauto.
+  - destruct (st_op s o) as [r|] eqn:H; [|exact L]. destruct (o_pc r); exact L.
+  - destruct (st_op s o) as [r|] eqn:H; [|exact L]. pose proof (L o r H). destruct (o_pc r); try exact L.
+    destruct (restore_keeps_lock_name v);
+    intros o1 r1; cbn; intro H1; look o1 o; inv_eq; cbn; eauto.
 Qed.
 
-Definition tracked (s : state) : Prop := fold_left quiet_ev (st_log s) (Some None) = Some (st_flock s).
+Definition tracked (s : state) : Prop := fold_left quiet_ev (st_log s) (Some None) = Some (lock_owner s).
 
 Lemma tracked_step : forall v vl vr s a,
   trunc_on_open v = false -> Inv v s -> (subdirs_before_lock v = true -> layout vl vr s) -> tracked s ->
   exists b, fold_left quiet_ev (st_log (apply_op v s a)) (Some None) = Some b.
 Proof.
   intros v vl vr s a T I L Q. unfold tracked in Q.
-  destruct a as [o p opts | o | o | o | o | o | o | p]; unfold apply_op;
+  destruct a as [o p opts | o | o | o | o | o | o | p | o | o]; unfold apply_op;
     try (destruct (st_op s o) as [r|] eqn:H; [|eauto]).
   - eauto.
   - (* OStep *)
-    unfold step_opener. destruct (o_pc r) eqn:P; eauto; simpl; rewrite ?fold_left_app, ?Q; simpl; eauto.
-    + destruct (op_valid (o_opts r)); simpl; rewrite ?fold_left_app, ?Q; simpl; eauto.
+    unfold step_opener. destruct (o_pc r) eqn:P; eauto; cbn; rewrite ?fold_left_app, ?Q; cbn; eauto.
+    + destruct (op_valid (o_opts r)); cbn; rewrite ?fold_left_app, ?Q; cbn; eauto.
     + (* create_directory_structure *)
-      destruct (st_flock s) as [x|] eqn:F.
+      destruct (lock_owner s) as [x|] eqn:F.
       * destruct (owner_created v s x I F) as [B _].
         destruct (inv_owner v s I x F) as [rx [Hx Cx]].
         assert (E : fs_dirs v (st_fs s) (o_opts r) = st_fs s).
         { apply fs_dirs_same; auto. intro SB.
           destruct (inv_sub v s I x rx Hx (past_dirs_validated _ (critical_past_dirs _ Cx)) SB) as [A [C D]].
           destruct (L SB x rx Hx) as [Lx1 Lx2]. destruct (L SB o r H) as [Lo1 Lo2].
-          unfold wanted_present. rewrite A. simpl. apply andb_true_intro. split.
-          - destruct (op_vlog (o_opts r)) eqn:E1; simpl; auto. apply C. congruence.
-          - destruct (op_ver (o_opts r)) eqn:E2; simpl; auto. apply D. congruence. }
-        rewrite E, dirs_eqb_refl. simpl. eauto.
+          unfold wanted_present. rewrite A. cbn. apply andb_true_intro. split.
+          - destruct (op_vlog (o_opts r)) eqn:E1; cbn; auto. apply C. congruence.
+          - destruct (op_ver (o_opts r)) eqn:E2; cbn; auto. apply D. congruence. }
+        rewrite E, dirs_eqb_refl. cbn. eauto.
       * destruct (negb _); eauto.
     + (* open LOCK *)
-      destruct (st_flock s) as [x|] eqn:F.
+      destruct (lock_owner s) as [x|] eqn:F.
       * destruct (owner_created v s x I F) as [_ Lk].
-        rewrite (lock_after_open_same v _ T Lk), lcontent_eqb_refl. simpl. eauto.
+        rewrite (lock_after_open_same v _ T Lk), lcontent_eqb_refl. cbn. eauto.
       * destruct (negb _); eauto.
-    + destruct (st_flock s); simpl; rewrite ?fold_left_app, ?Q; simpl; eauto.
-  - destruct (o_pc r); eauto; try destruct (detached_drop_closes v); simpl; rewrite ?fold_left_app, ?Q; simpl; eauto.
-  - destruct (o_pc r); eauto; try destruct (detached_drop_closes v); simpl; rewrite ?fold_left_app, ?Q; simpl; eauto.
-  - destruct (o_pc r); eauto; try destruct (detached_drop_closes v); simpl; rewrite ?fold_left_app, ?Q; simpl; eauto.
-  - destruct (o_pc r); eauto; try destruct (detached_drop_closes v); simpl; rewrite ?fold_left_app, ?Q; simpl; eauto.
-  - destruct (o_pc r); eauto; try destruct (detached_drop_closes v); simpl; rewrite ?fold_left_app, ?Q; simpl; eauto.
-  - simpl. unfold kill_log. rewrite fold_left_app, Q.
-    destruct (st_flock s) as [x|]; simpl; eauto. destruct (st_op s x) as [rx|]; simpl; eauto.
-    destruct (Nat.eqb (o_proc rx) p); simpl; eauto.
+    + destruct (lk_find (st_flock s) (o_ino r)); cbn; rewrite ?fold_left_app, ?Q; cbn; eauto.
+  - destruct (o_pc r); eauto; try destruct (detached_drop_closes v); cbn; rewrite ?fold_left_app, ?Q; cbn; eauto.
+  - destruct (o_pc r); eauto; try destruct (detached_drop_closes v); cbn; rewrite ?fold_left_app, ?Q; cbn; eauto.
+  - destruct (o_pc r); eauto; try destruct (detached_drop_closes v); cbn; rewrite ?fold_left_app, ?Q; cbn; eauto.
+  - destruct (o_pc r); eauto; try destruct (detached_drop_closes v); cbn; rewrite ?fold_left_app, ?Q; cbn; eauto.
+  - destruct (o_pc r); eauto; try destruct (detached_drop_closes v); cbn; rewrite ?fold_left_app, ?Q; cbn; eauto.
+  - cbn [mk st_log]. rewrite fold_left_app, Q.
+    destruct (lock_owner s) as [x|] eqn:F.
+    + destruct (inv_held v s x I F) as [TT _]. rewrite TT. unfold kill_log. cbn [flat_map snd].
+      destruct (dies (st_op s) p x); cbn; eauto.
+    + rewrite (inv_free v s I F). cbn. eauto.
+  - destruct (o_pc r); eauto; cbn; rewrite ?fold_left_app, ?Q; cbn; eauto.
+  - (* ORestore: by the owner *)
+    destruct (o_pc r) eqn:P; eauto.
+    assert (F : lock_owner s = Some o) by (eapply (inv_crit v s I); eauto; now rewrite P).
+    destruct (restore_keeps_lock_name v); cbn; rewrite ?fold_left_app, ?Q, F; cbn; rewrite ?Nat.eqb_refl; eauto.
 Qed.
 
-Lemma no_foreign_modification_gen : forall v vl vr, trunc_on_open v = false ->
+Lemma no_foreign_modification_gen : forall v vl vr, restore_keeps_lock_name v = true -> trunc_on_open v = false ->
   forall ops s, Inv v s -> (subdirs_before_lock v = true -> layout vl vr s) -> tracked s ->
   (subdirs_before_lock v = true -> same_layout vl vr ops) ->
   tracked (run v ops s).
 Proof.
-  intros v vl vr T. induction ops as [|a ops IH]; intros s I L Q SL; [exact Q|].
+  intros v vl vr K T. induction ops as [|a ops IH]; intros s I L Q SL; [exact Q|].
   rewrite run_cons. apply IH.
   - now apply inv_apply.
   - intro SB. apply layout_apply; auto. intros o p opts ->. apply (SL SB o p opts). now left.
   - destruct (tracked_step v vl vr s a T I L Q) as [b B]. unfold tracked. rewrite B. f_equal.
-    apply (inv_quiet_track v _ (inv_apply v s a I) b B).
+    apply (inv_quiet_track v _ (inv_apply v K s a I) b B).
   - intros SB o p opts X. apply (SL SB o p opts). now right.
 Qed.
 
-Theorem no_foreign_modification_all : forall v, trunc_on_open v = false -> subdirs_before_lock v = false ->
+Theorem no_foreign_modification_all : forall v, restore_keeps_lock_name v = true ->
+  trunc_on_open v = false -> subdirs_before_lock v = false ->
   no_foreign_modification_stmt v.
 Proof.
-  intros v T S ops. unfold quiet.
+  intros v K T S ops. unfold quiet.
   assert (X : tracked (run v ops s0)).
-  { apply (no_foreign_modification_gen v false false T); try (intro X; rewrite S in X; discriminate X);
+  { apply (no_foreign_modification_gen v false false K T); try (intro X; rewrite S in X; discriminate X);
       [apply inv_s0 | reflexivity]. }
   unfold tracked in X. now rewrite X.
 Qed.
@@ -891,14 +1122,14 @@ Theorem no_foreign_modification_fixed_dirs : no_foreign_modification_stmt fixed_
 Proof.
   intros ops. unfold quiet.
   assert (X : tracked (run fixed_dirs ops s0)).
-  { apply (no_foreign_modification_gen fixed_dirs false false eq_refl); try discriminate; [apply inv_s0 | reflexivity]. }
+  { apply (no_foreign_modification_gen fixed_dirs false false eq_refl eq_refl); try discriminate; [apply inv_s0 | reflexivity]. }
   unfold tracked in X. now rewrite X.
 Qed.
 Theorem no_foreign_modification_same_layout_fixed : no_foreign_modification_same_layout_stmt fixed.
 Proof.
   intros vl vr ops SL. unfold quiet.
   assert (X : tracked (run fixed ops s0)).
-  { apply (no_foreign_modification_gen fixed vl vr eq_refl); auto; [apply inv_s0 | intros _ o r; discriminate | reflexivity]. }
+  { apply (no_foreign_modification_gen fixed vl vr eq_refl eq_refl); auto; [apply inv_s0 | intros _ o r; discriminate | reflexivity]. }
   unfold tracked in X. now rewrite X.
 Qed.
 (* the pinned code: opener 2's open() empties LOCK while opener 1 owns the lock *)
@@ -913,30 +1144,156 @@ Qed.
 
 (* ------------------------------------------------------------------ what a failed open can change at most *)
 Lemma dirs_le_refl : forall f, dirs_le f f = true.
-Proof. intros [[|] [|] [|] [|] l d]; reflexivity. Qed.
+Proof. intros [[|] [|] [|] [|] l i n d]; reflexivity. Qed.
 Lemma dirs_le_fs_dirs : forall v f o, dirs_le f (set_lock (fs_dirs v f o) (lock_after_open v (f_lock (fs_dirs v f o)))) = true.
 Proof.
-  intros v [[|] [|] [|] [|] l d] [va [|] [|]]; unfold fs_dirs; destruct (subdirs_before_lock v); reflexivity.
+  intros v [[|] [|] [|] [|] l i n d] [va [|] [|]]; unfold fs_dirs; destruct (subdirs_before_lock v); reflexivity.
 Qed.
-Theorem refused_open_outside_known : forall v, refused_open_outside_known_stmt v.
+Theorem refused_open_outside_known : forall v, restore_keeps_lock_name v = true -> refused_open_outside_known_stmt v.
 Proof.
-  intros v ops o p opts s N s' N'. pose proof (inv_reach v ops) as I. fold s in I. subst s'.
+  intros v K ops o p opts s N s' N'. pose proof (inv_reach v K ops) as I. fold s in I. subst s'.
   destruct (op_valid opts) eqn:V.
-  - destruct (st_flock s) as [hh|] eqn:F.
-    + destruct (open_refused v s o p opts hh N V F) as [m' E]. rewrite E. simpl.
+  - destruct (lock_owner s) as [hh|] eqn:F.
+    + destruct (open_refused v s o p opts hh N V F) as [m' E].
+      pose proof (held_open_refused v ops hh o p opts F N) as [_ LO]. fold s in LO.
+      rewrite E in *. cbn [mk st_fs st_log st_flock].
       destruct (owner_created v s hh I F) as [B L].
       repeat split.
       * unfold fs_lockopen, fs_dirs. destruct (subdirs_before_lock v); reflexivity.
       * rewrite !filter_data_snoc; reflexivity.
-      * unfold fs_lockopen. simpl. rewrite f_lock_fs_dirs. unfold lock_after_open.
+      * unfold fs_lockopen. cbn [set_lock f_lock]. rewrite f_lock_fs_dirs. unfold lock_after_open.
         destruct (f_lock (st_fs s)); auto. destruct (trunc_on_open v); auto. destruct (trunc_on_open v); auto.
-      * unfold fs_lockopen, fs_dirs. destruct (subdirs_before_lock v); simpl; now rewrite B.
+      * unfold fs_lockopen. cbn [set_lock f_lock_ino]. apply f_lock_ino_fs_dirs.
+      * unfold fs_lockopen, fs_dirs. destruct (subdirs_before_lock v); cbn; now rewrite B.
       * apply dirs_le_fs_dirs.
       * intro W. unfold fs_lockopen. rewrite (fs_dirs_same v (st_fs s) opts B (fun _ => W)).
-        unfold dirs_eqb. simpl. now rewrite !eqb_reflx.
-    + destruct (open_free v s o p opts N V F) as [m' [l' E]]. rewrite E in N'. simpl in N'. rewrite upd_eq in N'. discriminate.
-  - rewrite (open_invalid v s o p opts N V). simpl. repeat split; auto.
+        unfold dirs_eqb. cbn. now rewrite !eqb_reflx.
+      * exact LO.
+    + destruct (open_free v s o p opts N V (inv_free v s I F)) as [m' [l' E]]. rewrite E in N'. cbn [mk st_op] in N'. rewrite upd_eq in N'. discriminate.
+  - rewrite (open_invalid v s o p opts N V). cbn [mk st_fs st_log st_flock]. repeat split; auto.
     + now rewrite filter_data_snoc.
     + apply dirs_le_refl.
     + intros _. apply dirs_eqb_refl.
 Qed.
+
+(* ------------------------------------------------------------------ 5. checkpoint / restore of a live store *)
+(* the steps of one opener leave every other opener's record alone *)
+Lemma step_frame : forall v s o y, y <> o -> st_op (apply_op v s (OStep o)) y = st_op s y.
+Proof.
+  intros v s o y Ne. unfold apply_op. destruct (st_op s o) as [r|] eqn:H; [|reflexivity].
+  unfold step_opener. destruct (o_pc r); try reflexivity;
+    repeat match goal with |- context [if ?c then _ else _] => destruct c
+                      | |- context [match lk_find ?t ?i with _ => _ end] => destruct (lk_find t i) end;
+    cbn [mk st_op]; now rewrite upd_neq.
+Qed.
+Lemma steps_frame : forall v n s o y, y <> o -> st_op (run v (repeat (OStep o) n) s) y = st_op s y.
+Proof.
+  induction n as [|n IH]; intros s o y Ne; [reflexivity|].
+  cbn [repeat]. rewrite run_cons, IH by assumption. now apply step_frame.
+Qed.
+Lemma open_frame : forall v s o p opts y, y <> o -> st_op (run v (open_ops o p opts) s) y = st_op s y.
+Proof.
+  intros v s o p opts y Ne. unfold open_ops. rewrite run_cons, steps_frame by assumption.
+  unfold apply_op. destruct (st_op s o); [reflexivity|]. cbn [mk st_op]. now rewrite upd_neq.
+Qed.
+
+(* the whole restore call on a live store, computed *)
+Lemma restore_run : forall v s o r, restore_keeps_lock_name v = true -> st_op s o = Some r -> o_pc r = PLive ->
+  run v (restore_ops o) s =
+  mk (upd (upd (st_op s) o (Some (at_pc r PRestoring 1))) o (Some (at_pc (at_pc r PRestoring 1) PLive 1)))
+     (st_flock s) (bump (bump (st_fs s))) ((st_log s ++ [EvData o KRestore]) ++ [EvData o KReload]).
+Proof.
+  intros v s o r K H P. unfold restore_ops. rewrite run_cons. unfold apply_op at 1. rewrite H, P, K.
+  rewrite run_cons, apply_step_some, run_nil. reflexivity.
+Qed.
+
+Theorem restore_keeps_lock : forall v, restore_keeps_lock_name v = true -> restore_keeps_lock_stmt v.
+Proof.
+  intros v K ops o r o' p' opts' s H P s1.
+  pose proof (inv_reach v K ops) as I. fold s in I.
+  assert (F : lock_owner s = Some o) by (eapply (inv_crit v s I); eauto; now rewrite P).
+  assert (NA : f_lock (st_fs s) <> LAbsent) by (eapply (inv_lockfile v s I); eauto; now rewrite P).
+  assert (EI : o_ino r = f_lock_ino (st_fs s)) by (eapply (inv_ino v s I); eauto; now rewrite P).
+  assert (E1 : s1 = mk (upd (upd (st_op s) o (Some (at_pc r PRestoring 1))) o (Some (at_pc (at_pc r PRestoring 1) PLive 1)))
+                       (st_flock s) (bump (bump (st_fs s))) ((st_log s ++ [EvData o KRestore]) ++ [EvData o KReload]))
+    by (now apply restore_run).
+  assert (L1 : is_live s1 o = true) by (rewrite E1; unfold is_live, pc_of; cbn [mk st_op]; now rewrite upd_eq).
+  assert (F1 : lock_owner s1 = Some o) by (rewrite E1; exact F).
+  split; [exact L1|]. split; [exact F1|].
+  split; [rewrite E1; reflexivity|]. split; [rewrite E1; exact NA|]. split; [rewrite E1; reflexivity|].
+  split; [rewrite E1; reflexivity|]. split; [rewrite E1; symmetry; exact EI|].
+  intros N s2.
+  assert (Ne : o <> o').
+  { intros ->. unfold is_live, pc_of in L1. rewrite N in L1. discriminate. }
+  assert (R : s1 = run v (ops ++ restore_ops o) s0) by (now rewrite run_app).
+  pose proof (held_open_refused v (ops ++ restore_ops o) o o' p' opts') as X. cbn zeta in X. rewrite <- R in X.
+  destruct (X F1 N) as [X1 X2]. fold s2 in X1, X2. repeat split; auto.
+  unfold is_live, pc_of. subst s2. rewrite open_frame by assumption. exact L1.
+Qed.
+
+(* a checkpoint (whatever the variant, whatever the state): LOCK, the lock table and every opener are as before *)
+Theorem checkpoint_keeps_lock : forall v, checkpoint_keeps_lock_stmt v.
+Proof.
+  intros v ops o s s1. subst s1. rewrite run_cons, run_nil. unfold apply_op.
+  destruct (st_op s o) as [r|]; [destruct (o_pc r)|];
+    repeat split; try reflexivity; try apply dirs_eqb_refl.
+  cbn [mk st_fs]. unfold dirs_eqb. cbn [bump f_base f_std f_vlog f_ver]. now rewrite !eqb_reflx.
+Qed.
+
+(* ---- regression record of the seeded change C19d: a restore that also removes the name LOCK ---- *)
+(* opener 1 (process 0) is live; it restores itself from a checkpoint: it stays live and keeps its flock — on an inode
+   that has no name any more; opener 2 (process 1) finds no LOCK, creates a new inode, locks it, and is live too *)
+Definition wit_two_live : list op := Eval vm_compute in wit_ops ++ [OCommit 1; OCheckpoint 1; OCommit 1] ++ restore_ops 1 ++ open_ops 2 1 plain.
+Theorem restore_unlinks_two_live :
+  let s := run restore_unlinks (wit_ops ++ [OCommit 1; OCheckpoint 1; OCommit 1]) s0 in
+  let s1 := run restore_unlinks (restore_ops 1) s in
+  let s2 := run restore_unlinks (open_ops 2 1 plain) s1 in
+  is_live s 1 = true /\ lock_owner s = Some 1 /\ f_lock (st_fs s) = LPid 0 /\ f_lock_ino (st_fs s) = 1 /\ lock_identity s 1 = IdSame /\
+  is_live s1 1 = true /\ f_lock (st_fs s1) = LAbsent /\ lock_owner s1 = None /\ st_flock s1 = [(1, 1)] /\ lock_identity s1 1 = IdAbsent /\
+  is_live s2 1 = true /\ is_live s2 2 = true /\ in_critical s2 1 = true /\ in_critical s2 2 = true /\
+  lock_owner s2 = Some 2 /\ st_flock s2 = [(2, 2); (1, 1)] /\ f_lock (st_fs s2) = LPid 1 /\ f_lock_ino (st_fs s2) = 2 /\
+  lock_identity s2 1 = IdChanged /\ lock_identity s2 2 = IdSame /\
+  s2 = run restore_unlinks wit_two_live s0.
+Proof. vm_compute. repeat split; reflexivity. Qed.
+Corollary mutual_exclusion_fails_restore_unlinks :
+  ~ mutual_exclusion_stmt restore_unlinks /\ ~ restore_keeps_lock_stmt restore_unlinks.
+Proof.
+  split; intro H.
+  - assert (X := H wit_two_live 1 2). vm_compute in X. specialize (X eq_refl eq_refl). discriminate.
+  - assert (X := H wit_ops 1 {| o_proc := 0; o_opts := plain; o_pc := PLive; o_fds := 1; o_ino := 1 |} 2 1 plain).
+    vm_compute in X. specialize (X eq_refl eq_refl). destruct X as [_ [X _]]. discriminate.
+Qed.
+(* ... and so for every variant without the property of the restore (all four fields split: 8 closed cases) *)
+Theorem mutual_exclusion_refuted_without_keep : forall v, restore_keeps_lock_name v = false -> ~ mutual_exclusion_stmt v.
+Proof.
+  intros v K H. assert (X := H wit_two_live 1 2).
+  destruct v as [[|] [|] [|] [|]]; try discriminate K;
+    vm_compute in X; specialize (X eq_refl eq_refl); discriminate.
+Qed.
+(* the same script on the code as it is: opener 2 is refused, LOCK is the inode opener 1 locked *)
+Theorem restore_witness_fixed_drop :
+  let s := run fixed_drop (wit_ops ++ [OCommit 1; OCheckpoint 1; OCommit 1]) s0 in
+  let s1 := run fixed_drop (restore_ops 1) s in
+  let s2 := run fixed_drop (open_ops 2 1 plain) s1 in
+  is_live s 1 = true /\ lock_owner s = Some 1 /\
+  is_live s1 1 = true /\ f_lock (st_fs s1) = LPid 0 /\ lock_owner s1 = Some 1 /\ st_flock s1 = [(1, 1)] /\ lock_identity s1 1 = IdSame /\
+  is_live s2 1 = true /\ st_op s2 2 = None /\ last (st_log s2) (EvGone 0) = EvRefused 2 /\
+  lock_owner s2 = Some 1 /\ st_flock s2 = [(1, 1)] /\ st_fs s2 = st_fs s1 /\
+  f_data (st_fs s1) = S (S (f_data (st_fs s))).
+Proof. vm_compute. repeat split; reflexivity. Qed.
+(* a concrete script with a restore on the code as it is: opener 1 (process 7) opens, commits, checkpoints, commits, restores
+   itself — between the two halves of the restore and after it opener 2 (process 8) is refused and LOCK is untouched; opener 1
+   commits again, closes; then opener 2 gets in *)
+Theorem restore_example_fixed_drop :
+  let s := run fixed_drop (open_ops 1 7 plain ++ [OCommit 1; OCheckpoint 1; OCommit 1]) s0 in
+  let sm := run fixed_drop ([ORestore 1] ++ open_ops 2 8 plain) s in
+  let s1 := run fixed_drop [OStep 1] sm in
+  let s2 := run fixed_drop (open_ops 2 8 plain ++ [OCommit 1]) s1 in
+  let s3 := run fixed_drop (close_ops 1 ++ open_ops 2 8 plain) s2 in
+  is_live s 1 = true /\ lock_owner s = Some 1 /\ lock_identity s 1 = IdSame /\
+  pc_of sm 1 = Some PRestoring /\ st_op sm 2 = None /\ lock_owner sm = Some 1 /\ last (st_log sm) (EvGone 0) = EvRefused 2 /\
+  is_live s1 1 = true /\ lock_owner s1 = Some 1 /\ lock_identity s1 1 = IdSame /\ f_lock (st_fs s1) = LPid 7 /\
+  is_live s2 1 = true /\ st_op s2 2 = None /\ lock_owner s2 = Some 1 /\ st_flock s2 = st_flock s /\
+  f_lock (st_fs s2) = f_lock (st_fs s) /\ f_lock_ino (st_fs s2) = f_lock_ino (st_fs s) /\
+  is_live s3 2 = true /\ lock_owner s3 = Some 2 /\ f_lock (st_fs s3) = LPid 8 /\ f_lock_ino (st_fs s3) = f_lock_ino (st_fs s).
+Proof. vm_compute. repeat split; reflexivity. Qed.
